@@ -232,24 +232,41 @@ Proof. unfold qv. intros ->. reflexivity. Qed.
 (* ================================================================== *)
 (* 2. same view *)
 Definition hview (s : state) := (chv s, qv s, next_uid s, next_qid s, st_add s, st_db s).
-Definition FR (s s' : state) : Prop := hview s' = hview s.
-
-Lemma FR_refl s : FR s s. Proof. reflexivity. Qed.
-Lemma FR_trans s1 s2 s3 : FR s1 s2 -> FR s2 s3 -> FR s1 s3.
-Proof. unfold FR. intros A B. rewrite B. exact A. Qed.
-Lemma FR_same s s' : conns s' = conns s -> queues s' = queues s -> next_uid s' = next_uid s -> next_qid s' = next_qid s ->
-  st_add s' = st_add s -> st_db s' = st_db s -> FR s s'.
+(* names and ids of the queue objects *)
+Definition nmv (s : state) : list (string * N) := map (fun kq : string * queue => (fst kq, q_id (snd kq))) (queues s).
+Lemma nmv_same_queues s s' : queues s' = queues s -> nmv s' = nmv s.
+Proof. unfold nmv. intros ->. reflexivity. Qed.
+Lemma nmv_set_queue_keep s qn qu qu' : get_queue s qn = Some qu -> q_id qu' = q_id qu -> nmv (set_queue s qn qu') = nmv s.
 Proof.
-  intros A B C D E F. unfold FR, hview. unfold chv. rewrite (all_ch_same_conns _ _ _ A), (qv_same_queues _ _ B), C, D, E, F. reflexivity.
+  unfold get_queue, set_queue. intros Eq E. destruct (aset_split seqb seqb_spec qn qu' qu (queues s) Eq) as (l1 & l2 & E1 & E2).
+  unfold nmv. cbn [queues set]. rewrite E2, E1, !map_app. cbn [map fst snd]. rewrite E. reflexivity.
 Qed.
+(* same view; pending deletes may have been added *)
+Definition FR (s s' : state) : Prop := hview s' = hview s /\ nmv s' = nmv s /\ incl (st_del s) (st_del s').
+
+Lemma FR_refl s : FR s s. Proof. split; [reflexivity|split; [reflexivity|apply incl_refl]]. Qed.
+Lemma FR_trans s1 s2 s3 : FR s1 s2 -> FR s2 s3 -> FR s1 s3.
+Proof. unfold FR. intros (A & A1 & A2) (B & B1 & B2). rewrite B, B1. split; [exact A|split; [exact A1|eapply incl_tran; eauto]]. Qed.
+Lemma FR_same_del s s' : conns s' = conns s -> queues s' = queues s -> next_uid s' = next_uid s -> next_qid s' = next_qid s ->
+  st_add s' = st_add s -> st_db s' = st_db s -> incl (st_del s) (st_del s') -> FR s s'.
+Proof.
+  intros A B C D E F G. split; [|split; [apply nmv_same_queues; exact B|exact G]].
+  unfold hview. unfold chv. rewrite (all_ch_same_conns _ _ _ A), (qv_same_queues _ _ B), C, D, E, F. reflexivity.
+Qed.
+Lemma FR_same s s' : conns s' = conns s -> queues s' = queues s -> next_uid s' = next_uid s -> next_qid s' = next_qid s ->
+  st_add s' = st_add s -> st_db s' = st_db s -> st_del s' = st_del s -> FR s s'.
+Proof. intros A B C D E F G. apply FR_same_del; auto. rewrite G. apply incl_refl. Qed.
 
 Lemma next_set_chan s c h ch : next_uid (set_chan s c h ch) = next_uid s /\ next_qid (set_chan s c h ch) = next_qid s /\
   st_add (set_chan s c h ch) = st_add s /\ st_db (set_chan s c h ch) = st_db s /\ queues (set_chan s c h ch) = queues s.
 Proof. unfold set_chan. destruct (get_conn s c); repeat split; reflexivity. Qed.
+Lemma st_del_set_chan s c h ch : st_del (set_chan s c h ch) = st_del s.
+Proof. unfold set_chan. destruct (get_conn s c); reflexivity. Qed.
 
 Lemma FR_set_chan s c h ch ch' : get_chan s c h = Some ch -> chk ch' = chk ch -> FR s (set_chan s c h ch').
 Proof.
-  intros Hg E. unfold FR, hview. destruct (next_set_chan s c h ch') as (-> & -> & -> & -> & Q).
+  intros Hg E. split; [|split; [apply nmv_same_queues; apply next_set_chan|rewrite st_del_set_chan; apply incl_refl]].
+  unfold hview. destruct (next_set_chan s c h ch') as (-> & -> & -> & -> & Q).
   rewrite (qv_same_queues _ _ Q). unfold chv. rewrite (all_ch_set_chan_keep _ s c h ch ch' Hg) by (apply chk1_eq; exact E). reflexivity.
 Qed.
 Lemma FR_upd_chan s c h f : (forall ch, chk (f ch) = chk ch) -> FR s (upd_chan s c h f).
@@ -257,7 +274,8 @@ Proof. intros Hf. unfold upd_chan. destruct (get_chan s c h) as [ch|] eqn:E; [|a
 
 Lemma FR_set_queue s qn qu qu' : get_queue s qn = Some qu -> qk qu' = qk qu -> FR s (set_queue s qn qu').
 Proof.
-  intros Hg E. unfold FR, hview. rewrite (qv_set_queue_keep s qn qu qu' Hg E). reflexivity.
+  intros Hg E. split; [|split; [apply (nmv_set_queue_keep s qn qu qu' Hg); apply (f_equal fst) in E; exact E|apply incl_refl]].
+  unfold hview. rewrite (qv_set_queue_keep s qn qu qu' Hg E). reflexivity.
 Qed.
 Lemma FR_upd_queue s qn f : (forall qu, qk (f qu) = qk qu) -> FR s (upd_queue s qn f).
 Proof. intros Hf. unfold upd_queue. destruct (get_queue s qn) as [qu|] eqn:E; [|apply FR_refl]. eapply FR_set_queue; eauto. Qed.
@@ -267,18 +285,19 @@ Proof. unfold upd_msg. destruct (get_msg s u); [|apply FR_refl]. apply FR_same; 
 Lemma FR_set_conn s c cn cn' : get_conn s c = Some cn -> cn_chans cn' = cn_chans cn ->
   FR s (s <| conns := aset N.eqb c cn' (conns s) |>).
 Proof.
-  intros Ec E. unfold FR, hview. cbn [next_uid next_qid st_add st_db set]. unfold chv. rewrite (all_ch_set_conn _ s c cn cn' Ec E).
+  intros Ec E. split; [|split; [reflexivity|apply incl_refl]].
+  unfold hview. cbn [next_uid next_qid st_add st_db set]. unfold chv. rewrite (all_ch_set_conn _ s c cn cn' Ec E).
   rewrite (qv_same_queues _ s) by reflexivity. reflexivity.
 Qed.
 Lemma FR_set_stage s c st : FR s (set_stage s c st).
 Proof. unfold set_stage. destruct (get_conn s c) as [cn|] eqn:Ec; [|apply FR_refl]. eapply FR_set_conn; eauto. Qed.
 Lemma FR_ensure_chan s c h : FR s (ensure_chan s c h).
 Proof.
-  unfold FR, hview. unfold chv. rewrite all_ch_ensure_chan by reflexivity.
   assert (E : queues (ensure_chan s c h) = queues s /\ next_uid (ensure_chan s c h) = next_uid s /\ next_qid (ensure_chan s c h) = next_qid s
-              /\ st_add (ensure_chan s c h) = st_add s /\ st_db (ensure_chan s c h) = st_db s).
+              /\ st_add (ensure_chan s c h) = st_add s /\ st_db (ensure_chan s c h) = st_db s /\ st_del (ensure_chan s c h) = st_del s).
   { unfold ensure_chan. destruct (get_conn s c) as [cn|]; [|repeat split; reflexivity]. destruct (alookup _ _ _); repeat split; reflexivity. }
-  destruct E as (Q & -> & -> & -> & ->). rewrite (qv_same_queues _ _ Q). reflexivity.
+  destruct E as (Q & E1 & E2 & E3 & E4 & E5). split; [|split; [apply nmv_same_queues; exact Q|rewrite E5; apply incl_refl]].
+  unfold hview. unfold chv. rewrite all_ch_ensure_chan by reflexivity. rewrite E1, E2, E3, E4, (qv_same_queues _ _ Q). reflexivity.
 Qed.
 
 Lemma FR_fold {A} (f : state -> A -> state) l : (forall s a, FR s (f s a)) -> forall s, FR s (fold_left f l s).
@@ -334,7 +353,9 @@ Lemma FR_queue_ackmsg s qn u : FR s (queue_ackmsg s qn u).
 Proof.
   unfold queue_ackmsg. destruct (get_queue s qn) as [qu|] eqn:E; [|apply FR_refl]. destruct (get_msg s u) as [m|]; [|apply FR_refl].
   destruct (negb (q_active qu)); [apply FR_refl|]. cbv zeta.
-  destruct (q_durable qu && m_pers m); (eapply FR_set_queue'; [apply FR_same; reflexivity|reflexivity|exact E|reflexivity]).
+  destruct (q_durable qu && m_pers m); (eapply FR_set_queue'; [apply FR_same_del; try reflexivity|reflexivity|exact E|reflexivity]).
+  - cbn [st_del set]. apply incl_appl. apply incl_refl.
+  - apply incl_refl.
 Qed.
 Lemma FR_chan_ackmsg s u : FR s (chan_ackmsg s u).
 Proof. unfold chan_ackmsg. destruct (origin_queue s u); [apply FR_queue_ackmsg|apply FR_same; reflexivity]. Qed.
@@ -378,12 +399,42 @@ Record HB0 (s s' : state) : Prop := {
   hb_store : forall k, In k (store s') -> In k (store s) \/ exists qid, In (fst k) (held s qid);
   hb_add : forall k, In k (st_add s') -> In k (st_add s);
   hb_nd : NoDup (st_add s) -> NoDup (st_db s) -> NoDup (st_add s') /\ NoDup (st_db s') }.
-Definition HB (s s' : state) : Prop := HB0 s s' /\ le_ms (qids s') (qids s).
+(* the effective store: what the flushed store holds once the pending operations are written (LPersistTick) *)
+Definition eff (s : state) (k : N * string) : Prop :=
+  (In k (st_db s) /\ (~ In k (st_del s) \/ In k (st_add s))) \/ (In k (st_add s) /\ ~ In k (st_del s)).
+Lemma eff_mono s s' k :
+  (forall k, In k (st_add s') -> In k (st_add s)) -> (forall k, In k (st_db s') -> In k (st_db s)) -> incl (st_del s) (st_del s') ->
+  eff s' k -> eff s k.
+Proof.
+  unfold eff. intros A B C [[H1 [H2|H2]]|[H1 H2]].
+  - left. split; [auto|]. left. intros Hd. apply H2. apply C. exact Hd.
+  - left. split; auto.
+  - right. split; [auto|]. intros Hd. apply H2. apply C. exact Hd.
+Qed.
+
+(* the queue table and the store do not grow, except that a returned message's key may be written back *)
+Record SB (s s' : state) : Prop := {
+  sb_q : forall p, In p (nmv s') -> In p (nmv s);
+  sb_names : NoDup (map fst (nmv s)) -> NoDup (map fst (nmv s'));
+  sb_eff : forall k, eff s' k -> eff s k \/ exists qid, In (snd k, qid) (nmv s) /\ In (fst k) (held s qid);
+  sb_disj : (forall k, In k (st_db s) -> ~ In k (st_add s)) -> forall k, In k (st_db s') -> ~ In k (st_add s') }.
+Lemma SB_mono s s' :
+  (forall p, In p (nmv s') -> In p (nmv s)) -> (NoDup (map fst (nmv s)) -> NoDup (map fst (nmv s'))) ->
+  (forall k, In k (st_add s') -> In k (st_add s)) -> (forall k, In k (st_db s') -> In k (st_db s)) -> incl (st_del s) (st_del s') -> SB s s'.
+Proof.
+  intros A B C D E. constructor; auto.
+  - intros k Hk. left. eapply eff_mono; eauto.
+  - intros Hd k Hk Ha. apply (Hd k); auto.
+Qed.
+Lemma SB_same s s' : nmv s' = nmv s -> st_add s' = st_add s -> st_db s' = st_db s -> incl (st_del s) (st_del s') -> SB s s'.
+Proof. intros A B C D. apply SB_mono; auto; rewrite ?A, ?B, ?C; auto. Qed.
+
+Definition HB (s s' : state) : Prop := HB0 s s' /\ le_ms (qids s') (qids s) /\ SB s s'.
 
 Lemma HB0_refl s : HB0 s s.
 Proof. constructor; intros; try apply le_ms_refl; try lia; auto. Qed.
 Lemma HB_refl s : HB s s.
-Proof. split; [apply HB0_refl|apply le_ms_refl]. Qed.
+Proof. split; [apply HB0_refl|split; [apply le_ms_refl|apply SB_same; auto; apply incl_refl]]. Qed.
 Lemma HB0_trans s1 s2 s3 : HB0 s1 s2 -> HB0 s2 s3 -> HB0 s1 s3.
 Proof.
   intros A B. constructor.
@@ -398,24 +449,31 @@ Proof.
   - intros N1 N2. destruct (hb_nd _ _ A N1 N2) as [M1 M2]. apply (hb_nd _ _ B M1 M2).
 Qed.
 Lemma HB_trans s1 s2 s3 : HB s1 s2 -> HB s2 s3 -> HB s1 s3.
-Proof. intros [A A'] [B B']. split; [eapply HB0_trans; eauto|eapply le_ms_trans; eauto]. Qed.
+Proof.
+  intros (A & A' & A2) (B & B' & B2). split; [eapply HB0_trans; eauto|split; [eapply le_ms_trans; eauto|]]. constructor.
+  - intros p Hp. apply (sb_q _ _ A2). apply (sb_q _ _ B2). exact Hp.
+  - intros Hn. apply (sb_names _ _ B2). apply (sb_names _ _ A2). exact Hn.
+  - intros k Hk. apply (sb_eff _ _ B2) in Hk. destruct Hk as [Hk|(qid & Hq & Hk)]; [apply (sb_eff _ _ A2); exact Hk|].
+    right. exists qid. split; [apply (sb_q _ _ A2); exact Hq|eapply le_ms_In; [apply A|exact Hk]].
+  - intros Hd. apply (sb_disj _ _ B2). apply (sb_disj _ _ A2). exact Hd.
+Qed.
 Lemma HB_fold {A} (f : state -> A -> state) l : (forall s a, HB s (f s a)) -> forall s, HB s (fold_left f l s).
 Proof. intros Hf. induction l as [|a t IH]; intros s; cbn [fold_left]; [apply HB_refl|]. eapply HB_trans; [apply Hf|apply IH]. Qed.
 
 Lemma held_FR s s' qid : FR s s' -> held s' qid = held s qid.
 Proof.
-  unfold FR, hview. intros E. inversion E as [[E1 E2 E3 E4 E5 E6]]. unfold held.
+  unfold FR, hview. intros [E _]. inversion E as [[E1 E2 E3 E4 E5 E6]]. unfold held.
   rewrite !ready_of_qv, !unacked_of_chv, E1, E2. reflexivity.
 Qed.
 Lemma all_cur_FR s s' : FR s s' -> all_cur s' = all_cur s.
-Proof. unfold FR, hview. intros E. inversion E as [[E1 E2 E3 E4 E5 E6]]. rewrite !all_cur_chv, E1. reflexivity. Qed.
+Proof. unfold FR, hview. intros [E _]. inversion E as [[E1 E2 E3 E4 E5 E6]]. rewrite !all_cur_chv, E1. reflexivity. Qed.
 Lemma all_unacked_FR s s' : FR s s' -> all_unacked s' = all_unacked s.
-Proof. unfold FR, hview. intros E. inversion E as [[E1 E2 E3 E4 E5 E6]]. rewrite !all_unacked_chv, E1. reflexivity. Qed.
+Proof. unfold FR, hview. intros [E _]. inversion E as [[E1 E2 E3 E4 E5 E6]]. rewrite !all_unacked_chv, E1. reflexivity. Qed.
 Lemma qids_FR s s' : FR s s' -> qids s' = qids s.
-Proof. unfold FR, hview. intros E. inversion E as [[E1 E2 E3 E4 E5 E6]]. unfold qids. rewrite E2. reflexivity. Qed.
+Proof. unfold FR, hview. intros [E _]. inversion E as [[E1 E2 E3 E4 E5 E6]]. unfold qids. rewrite E2. reflexivity. Qed.
 Lemma nexts_FR s s' : FR s s' -> next_uid s' = next_uid s /\ next_qid s' = next_qid s /\ store s' = store s /\
   st_add s' = st_add s /\ st_db s' = st_db s.
-Proof. unfold FR, hview, store. intros E. inversion E as [[E1 E2 E3 E4 E5 E6]]. rewrite E5, E6. auto. Qed.
+Proof. unfold FR, hview, store. intros [E _]. inversion E as [[E1 E2 E3 E4 E5 E6]]. rewrite E5, E6. auto. Qed.
 
 Lemma HB_FR s s' : FR s s' -> HB s s'.
 Proof.
@@ -427,7 +485,7 @@ Proof.
   - intros k Hk. rewrite C in Hk. auto.
   - rewrite D1. auto.
   - rewrite D1, D2. auto.
-  - rewrite (qids_FR _ _ E). apply le_ms_refl.
+  - split; [rewrite (qids_FR _ _ E); apply le_ms_refl|]. destruct E as (_ & E1 & E2). apply SB_same; auto.
 Qed.
 
 (* exact accounting of one queue-record / one channel-record write *)
@@ -484,7 +542,8 @@ Proof.
   - intros k Hk. rewrite store_set_chan in Hk. auto.
   - rewrite D1. auto.
   - rewrite D1, D2. auto.
-  - rewrite (qids_same_queues _ _ Q). apply le_ms_refl.
+  - split; [rewrite (qids_same_queues _ _ Q); apply le_ms_refl|].
+    apply SB_same; auto; [apply nmv_same_queues; exact Q|rewrite st_del_set_chan; apply incl_refl].
 Qed.
 Lemma HB_upd_chan s c h f :
   (forall ch, le_ms (cur_l (f ch)) (cur_l ch)) -> (forall ch qid, le_ms (uq qid (f ch)) (uq qid ch)) -> HB s (upd_chan s c h f).
@@ -517,7 +576,8 @@ Proof.
   - intros k Hk. auto.
   - auto.
   - auto.
-  - rewrite (qids_set_queue_keep s qn qu qu' Hg Eid). apply le_ms_refl.
+  - split; [rewrite (qids_set_queue_keep s qn qu qu' Hg Eid); apply le_ms_refl|].
+    apply SB_same; try reflexivity; [apply (nmv_set_queue_keep s qn qu qu' Hg Eid)|apply incl_refl].
 Qed.
 
 Lemma le_ms_map_filter {A} (f : A -> N) p l : le_ms (map f (filter p l)) (map f l).
@@ -536,7 +596,11 @@ Proof.
   - intros k Hk. auto.
   - auto.
   - auto.
-  - unfold qids, qv. cbn [queues set]. rewrite adel_filter, !map_map. apply le_ms_map_filter.
+  - split; [unfold qids, qv; cbn [queues set]; rewrite adel_filter, !map_map; apply le_ms_map_filter|].
+    apply SB_mono; auto; try apply incl_refl.
+    + unfold nmv. cbn [queues set]. rewrite adel_filter. intros p Hp. apply in_map_iff in Hp. destruct Hp as (kq & <- & Hk).
+      apply filter_In in Hk. apply (in_map (fun kq : string * queue => (fst kq, q_id (snd kq)))). tauto.
+    + unfold nmv. cbn [queues set]. rewrite adel_filter, !map_map. cbn [fst]. apply NoDup_map_filter.
 Qed.
 
 (* a connection leaves the table *)
@@ -552,16 +616,16 @@ Proof.
   - intros k Hk. auto.
   - auto.
   - auto.
-  - rewrite (qids_same_queues s) by reflexivity. apply le_ms_refl.
+  - split; [rewrite (qids_same_queues s) by reflexivity; apply le_ms_refl|]. apply SB_same; auto. apply incl_refl.
 Qed.
 
 (* keys leave the store *)
 Lemma HB_store_sub s s' :
   conns s' = conns s -> queues s' = queues s -> next_uid s' = next_uid s -> next_qid s' = next_qid s ->
   (forall k, In k (st_add s') -> In k (st_add s)) -> (forall k, In k (st_db s') -> In k (st_db s)) ->
-  (NoDup (st_add s) -> NoDup (st_add s')) -> (NoDup (st_db s) -> NoDup (st_db s')) -> HB s s'.
+  (NoDup (st_add s) -> NoDup (st_add s')) -> (NoDup (st_db s) -> NoDup (st_db s')) -> incl (st_del s) (st_del s') -> HB s s'.
 Proof.
-  intros A B C D E1 E2 F1 F2. split; [constructor|].
+  intros A B C D E1 E2 F1 F2 G. split; [constructor|].
   - intros qid. unfold held. rewrite (ready_of_same_queues _ _ qid B), (unacked_of_same_conns _ _ qid A). apply le_ms_refl.
   - unfold all_cur. rewrite (all_ch_same_conns _ _ _ A). apply le_ms_refl.
   - lia.
@@ -569,13 +633,22 @@ Proof.
   - intros k Hk. left. unfold store in *. apply in_app_or in Hk. apply in_or_app. destruct Hk; auto.
   - exact E1.
   - auto.
-  - rewrite (qids_same_queues _ _ B). apply le_ms_refl.
+  - split; [rewrite (qids_same_queues _ _ B); apply le_ms_refl|]. apply SB_mono; auto; rewrite (nmv_same_queues _ _ B); auto.
 Qed.
 Lemma HB_db_filter s p : HB s (s <| st_db ::= filter p |>).
 Proof.
-  apply HB_store_sub; try reflexivity; cbn [st_add st_db set]; auto.
+  apply HB_store_sub; try reflexivity; cbn [st_add st_db st_del set]; auto.
   - intros k Hk. apply filter_In in Hk. tauto.
   - apply NoDup_filter.
+  - apply incl_refl.
+Qed.
+
+Lemma HB_store_purge s qn : HB s (store_purge s qn).
+Proof.
+  unfold store_purge. apply HB_store_sub; try reflexivity; cbn [st_add st_db st_del set]; auto.
+  - intros k Hk. apply filter_In in Hk. tauto.
+  - apply NoDup_filter.
+  - apply incl_appl. apply incl_refl.
 Qed.
 
 Lemma held_same s s' qid : conns s' = conns s -> queues s' = queues s -> held s' qid = held s qid.
@@ -636,14 +709,29 @@ Proof.
 Qed.
 
 Lemma store_writeback_nd s qn u d :
-  st_add (store_writeback s qn u d) = st_add s /\ (NoDup (st_db s) -> NoDup (st_db (store_writeback s qn u d))).
+  st_add (store_writeback s qn u d) = st_add s /\ (NoDup (st_db s) -> NoDup (st_db (store_writeback s qn u d))) /\
+  ((forall k, In k (st_db s) -> ~ In k (st_add s)) -> forall k, In k (st_db (store_writeback s qn u d)) -> ~ In k (st_add s)).
 Proof.
-  unfold store_writeback. destruct (d && _) eqn:E0; [|auto]. cbn [andb]. destruct (negb _) eqn:E; [|auto].
-  cbn [st_add st_db set]. split; [reflexivity|]. intros Hn. apply NoDup_snoc; [exact Hn|].
-  intros Hin. apply Bool.negb_true_iff in E. assert (Hex : existsb (fun k => (fst k =? u) && seqb (snd k) qn) (st_db s) = true).
-  { apply existsb_exists. exists (u, qn). split; [exact Hin|]. cbn [fst snd]. rewrite N.eqb_refl. rewrite (proj2 (seqb_spec qn qn) eq_refl). reflexivity. }
-  congruence.
+  unfold store_writeback. destruct (d && _) eqn:E0; [|auto]. cbn [andb]. destruct (negb _) eqn:E; [|auto]. cbn [andb].
+  destruct (negb (existsb _ (st_add s))) eqn:Ea; [|auto].
+  cbn [st_add st_db set]. split; [reflexivity|]. split.
+  - intros Hn. apply NoDup_snoc; [exact Hn|].
+    intros Hin. apply Bool.negb_true_iff in E. assert (Hex : existsb (fun k => (fst k =? u) && seqb (snd k) qn) (st_db s) = true).
+    { apply existsb_exists. exists (u, qn). split; [exact Hin|]. cbn [fst snd]. rewrite N.eqb_refl. rewrite (proj2 (seqb_spec qn qn) eq_refl). reflexivity. }
+    congruence.
+  - intros Hd k Hk. apply in_app_or in Hk. destruct Hk as [Hk|[<-|[]]]; [apply Hd; exact Hk|].
+    intros Hin. apply Bool.negb_true_iff in Ea. assert (Hex : existsb (fun k => (fst k =? u) && seqb (snd k) qn) (st_add s) = true).
+    { apply existsb_exists. exists (u, qn). split; [exact Hin|]. cbn [fst snd]. rewrite N.eqb_refl. rewrite (proj2 (seqb_spec qn qn) eq_refl). reflexivity. }
+    congruence.
 Qed.
+
+Lemma store_writeback_db s qn u d k : In k (st_db (store_writeback s qn u d)) -> In k (st_db s) \/ k = (u, qn).
+Proof.
+  unfold store_writeback. destruct (_ && _ && _); [|auto]. cbn [st_db set]. intros H.
+  apply in_app_or in H. destruct H as [H|[H|[]]]; auto.
+Qed.
+Lemma get_queue_nmv s qn qu : get_queue s qn = Some qu -> In (qn, q_id qu) (nmv s).
+Proof. intros H. apply (alookup_in seqb seqb_spec) in H. apply (in_map (fun kq : string * queue => (fst kq, q_id (snd kq)))) in H. exact H. Qed.
 
 (* Queue.Requeue: the message goes back to the head of the waiting list of its queue object *)
 Lemma requeue_effect s qn u qu : get_queue s qn = Some qu ->
@@ -651,7 +739,10 @@ Lemma requeue_effect s qn u qu : get_queue s qn = Some qu ->
   conns (queue_requeue s qn u) = conns s /\ qids (queue_requeue s qn u) = qids s /\
   next_uid (queue_requeue s qn u) = next_uid s /\ next_qid (queue_requeue s qn u) = next_qid s /\
   (forall k, In k (store (queue_requeue s qn u)) -> In k (store s) \/ k = (u, qn)) /\
-  st_add (queue_requeue s qn u) = st_add s /\ (NoDup (st_db s) -> NoDup (st_db (queue_requeue s qn u))).
+  st_add (queue_requeue s qn u) = st_add s /\ (NoDup (st_db s) -> NoDup (st_db (queue_requeue s qn u))) /\
+  nmv (queue_requeue s qn u) = nmv s /\ st_del (queue_requeue s qn u) = st_del s /\
+  (forall k, In k (st_db (queue_requeue s qn u)) -> In k (st_db s) \/ k = (u, qn)) /\
+  ((forall k, In k (st_db s) -> ~ In k (st_add s)) -> forall k, In k (st_db (queue_requeue s qn u)) -> ~ In k (st_add s)).
 Proof.
   intros Hg. unfold queue_requeue. rewrite Hg. destruct (negb (q_active qu)).
   { repeat split; auto. intros qid x. lia. }
@@ -677,6 +768,12 @@ Proof.
     rewrite <- E. exact Hk.
   - subst s4. cbn [st_add set]. unfold upd_msg. destruct (get_msg _ u); cbn [st_add set]; apply store_writeback_nd.
   - intros Hn. subst s4. cbn [st_db set]. unfold upd_msg. destruct (get_msg _ u); cbn [st_db set]; apply store_writeback_nd; exact Hn.
+  - rewrite (nmv_set_queue_keep s4 qn qu qu' Hg4 Eid). apply nmv_same_queues. exact Eq.
+  - subst s4. cbn [st_del set]. unfold upd_msg. destruct (get_msg _ u); cbn [st_del set]; unfold store_writeback; destruct (_ && _ && _); reflexivity.
+  - intros k Hk. apply (store_writeback_db s qn u (q_durable qu)). subst s4. cbn [st_db set] in Hk. unfold upd_msg in Hk.
+    destruct (get_msg _ u); exact Hk.
+  - intros Hd k Hk. apply (proj2 (proj2 (store_writeback_nd s qn u (q_durable qu))) Hd). subst s4. cbn [st_db set] in Hk. unfold upd_msg in Hk.
+    destruct (get_msg _ u); exact Hk.
 Qed.
 
 Lemma HB_reject_one_requeue s c h e :
@@ -694,7 +791,7 @@ Proof.
   assert (I1 : qids s1 = qids s) by (apply qids_same_queues; exact Q1).
   unfold chan_rejectmsg. destruct (origin_queue s1 e) as [qu|] eqn:Eo.
   - apply origin_queue_some in Eo. destruct Eo as [Hq Eid].
-    destruct (requeue_effect s1 (u_queue e) (u_msg e) qu Hq) as (R1 & R2 & R3 & R4 & R5 & R6 & R7 & R8).
+    destruct (requeue_effect s1 (u_queue e) (u_msg e) qu Hq) as (R1 & R2 & R3 & R4 & R5 & R6 & R7 & R8 & R9 & R10 & R11 & R12).
     destruct (next_set_chan s c h (del_unacked ch (u_tag e))) as (_ & _ & D1 & D2 & _). fold s1 in D1, D2.
     split; [constructor|].
     + intros qid x. specialize (R1 qid x). specialize (H1 qid x). rewrite Eid in R1. lia.
@@ -705,7 +802,18 @@ Proof.
       right. exists (u_qid e). cbn [fst]. eapply In_uq_held; eauto.
     + rewrite R7, D1. auto.
     + intros M1 M2. rewrite R7, D1. split; [exact M1|]. apply R8. rewrite D2. exact M2.
-    + rewrite R3, I1. apply le_ms_refl.
+    + split; [rewrite R3, I1; apply le_ms_refl|].
+      assert (Nm : nmv s1 = nmv s) by (apply nmv_same_queues; exact Q1).
+      assert (Dl : st_del s1 = st_del s) by apply st_del_set_chan.
+      constructor.
+      * intros p Hp. rewrite R9, Nm in Hp. exact Hp.
+      * rewrite R9, Nm. auto.
+      * intros k Hk. unfold eff in Hk. rewrite R7, R10, D1, Dl in Hk.
+        assert (Hkey : k = (u_msg e, u_queue e) -> exists qid, In (snd k, qid) (nmv s) /\ In (fst k) (held s qid)).
+        { intros ->. exists (u_qid e). cbn [fst snd]. split; [rewrite <- Nm, <- Eid; apply get_queue_nmv; exact Hq|eapply In_uq_held; eauto]. }
+        destruct Hk as [[Hd Hc]|Hk]; [|left; right; exact Hk].
+        apply R11 in Hd. rewrite D2 in Hd. destruct Hd as [Hd|Hd]; [left; left; auto|right; auto].
+      * intros Hdj k Hk. rewrite R7. apply R12; [rewrite D1, D2; exact Hdj|exact Hk].
   - split; [constructor|].
     + intros qid x. rewrite (held_same s1 (s1 <| srv_total ::= Z.pred |> <| srv_unacked ::= Z.pred |>) qid) by reflexivity. specialize (H1 qid x). lia.
     + rewrite (all_cur_same s1) by reflexivity. rewrite C1. apply le_ms_refl.
@@ -714,7 +822,10 @@ Proof.
     + intros k Hk. left. rewrite <- S1. exact Hk.
     + destruct (next_set_chan s c h (del_unacked ch (u_tag e))) as (_ & _ & D1 & D2 & _). fold s1 in D1, D2. cbn [st_add set]. rewrite D1. auto.
     + destruct (next_set_chan s c h (del_unacked ch (u_tag e))) as (_ & _ & D1 & D2 & _). fold s1 in D1, D2. cbn [st_add st_db set]. rewrite D1, D2. auto.
-    + rewrite (qids_same_queues s1) by reflexivity. rewrite I1. apply le_ms_refl.
+    + split; [rewrite (qids_same_queues s1) by reflexivity; rewrite I1; apply le_ms_refl|].
+      destruct (next_set_chan s c h (del_unacked ch (u_tag e))) as (_ & _ & D1 & D2 & _). fold s1 in D1, D2.
+      apply SB_same; cbn [st_add st_db st_del set]; auto; [rewrite <- (nmv_same_queues s s1 Q1); apply nmv_same_queues; reflexivity|].
+      unfold s1. rewrite st_del_set_chan. apply incl_refl.
 Qed.
 
 Lemma HB_fold_requeue c h sel : forall s,
@@ -787,7 +898,7 @@ Proof.
     eapply HB_trans; [apply HB_FR; exact Hf|]. eapply HB_trans; [|apply HB_del_queue].
     match goal with |- HB _ (@set _ _ _ _ _ (@set _ _ _ _ _ (@set _ _ _ _ _ ?y))) => apply (HB_trans _ y); [|apply HB_FR; apply FR_same; reflexivity] end.
     destruct (q_durable qu); [|apply HB_refl].
-    apply HB_db_filter.
+    apply HB_store_purge.
 Qed.
 
 Lemma HBCI_delete_fold b l : forall s evs, CI s ->
@@ -815,9 +926,9 @@ Qed.
 
 (* ---- finer accounting: waiting list and unsettled list separately ---- *)
 Lemma ready_of_FR s s' qid : FR s s' -> ready_of s' qid = ready_of s qid.
-Proof. unfold FR, hview. intros E. inversion E as [[E1 E2 E3 E4 E5 E6]]. rewrite !ready_of_qv, E2. reflexivity. Qed.
+Proof. unfold FR, hview. intros [E _]. inversion E as [[E1 E2 E3 E4 E5 E6]]. rewrite !ready_of_qv, E2. reflexivity. Qed.
 Lemma unacked_of_FR s s' qid : FR s s' -> unacked_of s' qid = unacked_of s qid.
-Proof. unfold FR, hview. intros E. inversion E as [[E1 E2 E3 E4 E5 E6]]. rewrite !unacked_of_chv, E1. reflexivity. Qed.
+Proof. unfold FR, hview. intros [E _]. inversion E as [[E1 E2 E3 E4 E5 E6]]. rewrite !unacked_of_chv, E1. reflexivity. Qed.
 
 Lemma cnt_ready_set_queue s qn qu qu' : get_queue s qn = Some qu -> q_id qu' = q_id qu -> forall qid x,
   (cnt x (ready_of (set_queue s qn qu') qid) + (if N.eqb (q_id qu) qid then cnt x (q_ready qu) else 0) =
@@ -876,7 +987,9 @@ Record delivered (s s' : state) (c h : N) (qid u dtag : N) (noack : bool) : Prop
   dv_uid : next_uid s' = next_uid s;
   dv_qid : next_qid s' = next_qid s;
   dv_add : st_add s' = st_add s;
-  dv_db : st_db s' = st_db s }.
+  dv_db : st_db s' = st_db s;
+  dv_nmv : nmv s' = nmv s;
+  dv_del : incl (st_del s) (st_del s') }.
 
 Lemma HB_delivered s s' c h qid u dtag noack : delivered s s' c h qid u dtag noack -> HB s s'.
 Proof.
@@ -889,7 +1002,7 @@ Proof.
   - intros k Hk. left. unfold store in *. rewrite (dv_add _ _ _ _ _ _ _ _ D), (dv_db _ _ _ _ _ _ _ _ D) in Hk. exact Hk.
   - rewrite (dv_add _ _ _ _ _ _ _ _ D). auto.
   - rewrite (dv_add _ _ _ _ _ _ _ _ D), (dv_db _ _ _ _ _ _ _ _ D). auto.
-  - rewrite (dv_qids _ _ _ _ _ _ _ _ D). apply le_ms_refl.
+  - split; [rewrite (dv_qids _ _ _ _ _ _ _ _ D); apply le_ms_refl|]. apply SB_same; apply D.
 Qed.
 
 Lemma delivered_FR_l s0 s s' c h qid u dtag noack : FR s0 s -> delivered s s' c h qid u dtag noack -> delivered s0 s' c h qid u dtag noack.
@@ -904,6 +1017,8 @@ Proof.
   - rewrite <- B. apply D.
   - rewrite <- D1. apply D.
   - rewrite <- D2. apply D.
+  - destruct E as (_ & E1 & _). rewrite <- E1. apply D.
+  - destruct E as (_ & _ & E1). eapply incl_tran; [exact E1|apply D].
 Qed.
 Lemma delivered_FR_r s s' s'' c h qid u dtag noack :
   delivered s s' c h qid u dtag noack -> FR s' s'' -> U s'' c h = U s' c h -> delivered s s'' c h qid u dtag noack.
@@ -918,6 +1033,8 @@ Proof.
   - rewrite B. apply D.
   - rewrite D1. apply D.
   - rewrite D2. apply D.
+  - destruct E as (_ & E1 & _). rewrite E1. apply D.
+  - destruct E as (_ & _ & E1). eapply incl_tran; [apply D|exact E1].
 Qed.
 
 (* the common core of consumer turn and basic.get: pop the head, (bookkeeping that does not touch the view), bump the tag
@@ -940,9 +1057,12 @@ Proof.
   assert (C1 : all_cur s1 = all_cur s) by (apply all_cur_same; apply conns_upd_queue).
   assert (I1 : qids s1 = qids s).
   { subst s1. unfold upd_queue. rewrite Hq. apply (qids_set_queue_keep s qn qu); auto. }
-  assert (N1 : next_uid s1 = next_uid s /\ next_qid s1 = next_qid s /\ st_add s1 = st_add s /\ st_db s1 = st_db s).
+  assert (N1 : next_uid s1 = next_uid s /\ next_qid s1 = next_qid s /\ st_add s1 = st_add s /\ st_db s1 = st_db s /\ st_del s1 = st_del s).
   { subst s1. unfold upd_queue. rewrite Hq. repeat split; reflexivity. }
-  destruct N1 as (N1 & N2 & N3 & N4).
+  destruct N1 as (N1 & N2 & N3 & N4 & N5).
+  assert (Nm1 : nmv s1 = nmv s) by (subst s1; unfold upd_queue; rewrite Hq; apply (nmv_set_queue_keep s qn qu); auto).
+  assert (Nm2 : nmv s2 = nmv s) by (destruct E2 as (_ & E2' & _); rewrite E2'; exact Nm1).
+  assert (Dl2 : incl (st_del s) (st_del s2)) by (destruct E2 as (_ & _ & E2'); rewrite <- N5; exact E2').
   destruct (nexts_FR _ _ E2) as (A & B & _ & D1 & D2).
   assert (Eqid : noack = false -> qid_of s2 qn = q_id qu) by (intros En; unfold qid_of; rewrite (get_queue_same_queues _ _ _ (Q2 En)), Hq1; exact Eid).
   destruct noack.
@@ -955,6 +1075,8 @@ Proof.
     + lia.
     + congruence.
     + congruence.
+    + exact Nm2.
+    + exact Dl2.
   - unfold chan_ex in Hex2. destruct (get_chan s2 c h) as [ch2|] eqn:Ech2; [|congruence].
     unfold upd_chan. rewrite Ech2. rewrite (Eqid eq_refl).
     set (en := {| u_tag := dtag; u_ctag := ctag; u_queue := qn; u_qid := q_id qu; u_msg := u |}).
@@ -971,6 +1093,8 @@ Proof.
     + lia.
     + congruence.
     + congruence.
+    + rewrite (nmv_same_queues _ _ MQ). exact Nm2.
+    + rewrite st_del_set_chan. exact Dl2.
 Qed.
 
 Lemma content_frames_not_delivery s c h u e : In e (content_frames s c h u) -> is_delivery e = false.
@@ -1119,7 +1243,9 @@ Record HI (s : state) : Prop := {
   hi_store_lt : forall k, In k (store s) -> fst k < next_uid s;
   hi_add_nodup : NoDup (st_add s);
   hi_db_nodup : NoDup (st_db s);                                               (* the store holds no key twice *)
-  hi_cur_add : forall u k, In u (all_cur s) -> In k (st_add s) -> fst k <> u }.
+  hi_cur_add : forall u k, In u (all_cur s) -> In k (store s) -> fst k <> u;   (* a message mid-publish has no key yet *)
+  hi_db_add : forall k, In k (st_db s) -> ~ In k (st_add s);                   (* no key is at once written and pending *)
+  hi_names : NoDup (map fst (nmv s)) }.                                        (* one queue object per name *)
 
 Lemma HI_mono s s' : HI s ->
   (forall qid, le_ms (held s' qid) (held s qid)) ->
@@ -1127,9 +1253,10 @@ Lemma HI_mono s s' : HI s ->
   NoDup (all_cur s') -> (forall u, In u (all_cur s') -> In u (all_cur s) \/ (next_uid s <= u /\ u < next_uid s')) ->
   NoDup (qids s') -> (forall i, In i (qids s') -> In i (qids s) \/ (next_qid s <= i /\ i < next_qid s')) ->
   (forall k, In k (store s') -> In k (store s) \/ exists qid, In (fst k) (held s qid)) ->
-  (forall k, In k (st_add s') -> In k (st_add s)) -> NoDup (st_add s') -> NoDup (st_db s') -> HI s'.
+  (forall k, In k (st_add s') -> In k (st_add s)) -> NoDup (st_add s') -> NoDup (st_db s') -> NoDup (map fst (nmv s')) ->
+  (forall k, In k (st_db s') -> ~ In k (st_add s')) -> HI s'.
 Proof.
-  intros H Hh Hu Hq Hcn Hc Hin Hi Hs Ha Han Hdn. constructor; auto.
+  intros H Hh Hu Hq Hcn Hc Hin Hi Hs Ha Han Hdn Hnm Hdj. constructor; auto.
   - intros qid. eapply le_ms_NoDup; [apply Hh|apply H].
   - intros u qid Hu' Hx. apply (le_ms_In _ _ _ (Hh qid)) in Hx. apply Hc in Hu'. destruct Hu' as [Hu'|Hu'].
     + exact (hi_cur_fresh _ H u qid Hu' Hx).
@@ -1139,15 +1266,17 @@ Proof.
   - intros i Hi'. apply Hi in Hi'. destruct Hi' as [Hi'|Hi']; [pose proof (hi_qids_lt _ H i Hi')|]; lia.
   - intros qid u Hx. apply (le_ms_In _ _ _ (Hh qid)) in Hx. pose proof (hi_held_qid _ H qid u Hx). lia.
   - intros k Hk. apply Hs in Hk. destruct Hk as [Hk|(qid & Hk)]; [pose proof (hi_store_lt _ H k Hk)|pose proof (hi_held_lt _ H qid _ Hk)]; lia.
-  - intros u k Hu' Hk E. apply Ha in Hk. apply Hc in Hu'. destruct Hu' as [Hu'|Hu'].
+  - intros u k Hu' Hk E. apply Hs in Hk. apply Hc in Hu'. destruct Hk as [Hk|(qid & Hk)]; destruct Hu' as [Hu'|Hu'].
     + exact (hi_cur_add _ H u k Hu' Hk E).
-    + assert (Hk' : In k (store s)) by (unfold store; apply in_or_app; auto). pose proof (hi_store_lt _ H k Hk'). lia.
+    + pose proof (hi_store_lt _ H k Hk). lia.
+    + rewrite E in Hk. exact (hi_cur_fresh _ H u qid Hu' Hk).
+    + pose proof (hi_held_lt _ H qid _ Hk). lia.
 Qed.
 
 Lemma HI_HB s s' : HI s -> HB s s' -> HI s'.
 Proof.
-  intros H [B Bq]. destruct (hb_nd _ _ B (hi_add_nodup _ H) (hi_db_nodup _ H)) as [N1 N2].
-  apply (HI_mono s s' H); auto; try apply B.
+  intros H (B & Bq & Bs). destruct (hb_nd _ _ B (hi_add_nodup _ H) (hi_db_nodup _ H)) as [N1 N2].
+  apply (HI_mono s s' H); auto; try apply B; try (apply (sb_names _ _ Bs); apply H); try (apply (sb_disj _ _ Bs); apply H).
   - eapply le_ms_NoDup; [apply B|apply H].
   - intros u Hu. left. eapply le_ms_In; [apply B|exact Hu].
   - eapply le_ms_NoDup; [exact Bq|apply H].
@@ -1182,17 +1311,18 @@ Lemma queue_push_effect s qn u :
     conns (queue_push s qn u) = conns s /\ qids (queue_push s qn u) = qids s /\
     next_uid (queue_push s qn u) = next_uid s /\ next_qid (queue_push s qn u) = next_qid s /\ st_db (queue_push s qn u) = st_db s /\
     (st_add (queue_push s qn u) = st_add s \/ st_add (queue_push s qn u) = st_add s ++ [(u, qn)]) /\
-    (forall qn', qn' <> qn -> get_queue (queue_push s qn u) qn' = get_queue s qn').
+    (forall qn', qn' <> qn -> get_queue (queue_push s qn u) qn' = get_queue s qn') /\
+    nmv (queue_push s qn u) = nmv s /\ st_del (queue_push s qn u) = st_del s.
 Proof.
   unfold queue_push. destruct (get_queue s qn) as [qu|] eqn:Hq; [|left; reflexivity].
   destruct (get_msg s u) as [m|]; [|left; reflexivity]. destruct (negb (q_active qu)); [left; reflexivity|].
   right. exists qu. split; [reflexivity|]. cbv zeta.
   set (s2 := if q_durable qu && m_pers m then _ else _).
   assert (E2 : conns s2 = conns s /\ queues s2 = queues s /\ next_uid s2 = next_uid s /\ next_qid s2 = next_qid s /\ st_db s2 = st_db s /\
-               (st_add s2 = st_add s \/ st_add s2 = st_add s ++ [(u, qn)])).
+               (st_add s2 = st_add s \/ st_add s2 = st_add s ++ [(u, qn)]) /\ st_del s2 = st_del s).
   { subst s2. destruct (q_durable qu && m_pers m); [repeat split; auto|].
     destruct (m_conf m); [|repeat split; auto]. unfold upd_msg. destruct (get_msg _ u); repeat split; auto. }
-  destruct E2 as (Ec & Eq & E3 & E4 & E5 & E6). clearbody s2.
+  destruct E2 as (Ec & Eq & E3 & E4 & E5 & E6 & E7). clearbody s2.
   assert (Hq2 : get_queue s2 qn = Some qu) by (rewrite (get_queue_same_queues _ _ _ Eq); exact Hq).
   set (qu' := call_consumers _).
   assert (Hk : qk qu' = (q_id qu, q_ready qu ++ [u])) by (subst qu'; rewrite q_call_consumers; reflexivity).
@@ -1204,6 +1334,26 @@ Proof.
   - rewrite (qids_set_queue_keep s2 qn qu qu' Hq2 Eid). apply qids_same_queues. exact Eq.
   - intros qn' Hne. rewrite get_queue_set_queue. destruct (seqb qn' qn) eqn:E; [apply seqb_spec in E; contradiction|].
     apply get_queue_same_queues. exact Eq.
+  - rewrite (nmv_set_queue_keep s2 qn qu qu' Hq2 Eid). apply nmv_same_queues. exact Eq.
+Qed.
+
+Lemma route_keeps fx s c h u :
+  nmv (fst (route_and_push fx s c h u)) = nmv s /\ st_del (fst (route_and_push fx s c h u)) = st_del s.
+Proof.
+  assert (Hac : forall s0 t, nmv (add_confirm s0 c h t) = nmv s0 /\ st_del (add_confirm s0 c h t) = st_del s0).
+  { intros s0 t. split; [apply nmv_same_queues; apply queues_add_confirm|]. unfold add_confirm.
+    destruct (get_chan s0 c h) as [ch|]; [|reflexivity]. destruct (negb _); [reflexivity|].
+    destruct (ch_status ch); try reflexivity; destruct t as [[[? ?] ?]|]; try reflexivity; apply st_del_set_chan. }
+  unfold route_and_push. destruct (get_msg s u) as [m|]; [|auto].
+  destruct (alookup _ _ _) as [ex|]; cbn [fst]; [|apply Hac].
+  destruct (matched_queues _ _ _) as [|q1 qs]; cbn [fst]; [apply Hac|].
+  apply (fold_left_preserves (fun st => nmv st = nmv s /\ st_del st = st_del s)).
+  - intros s1 qn [A B]. unfold push_one.
+    assert (H2 : nmv (queue_push s1 qn u) = nmv s /\ st_del (queue_push s1 qn u) = st_del s).
+    { destruct (queue_push_effect s1 qn u) as [->|(qu & _ & _ & _ & _ & _ & _ & _ & _ & _ & E1 & E2)]; [auto|]. rewrite E1, E2. auto. }
+    destruct (get_msg _ u); [|exact H2]. destruct (_ && _ && _); [|exact H2]. destruct (Hac (queue_push s1 qn u) (live_conf (queue_push s1 qn u) m0)) as [A1 B1].
+    rewrite A1, B1. exact H2.
+  - destruct (_ && _)%bool; [|auto]. split; [apply nmv_same_queues; apply queues_upd_msg|]. unfold upd_msg. destruct (get_msg s u); reflexivity.
 Qed.
 
 Section Publish.
@@ -1228,7 +1378,7 @@ Record PK (Q : list string) (s : state) : Prop := {
 Lemma PK_init Q : PK Q s0.
 Proof.
   constructor; auto; try apply H0.
-  - intros qn Hq Hin. exact (hi_cur_add _ H0 u (u, qn) Hu0 Hin eq_refl).
+  - intros qn Hq Hin. apply (hi_cur_add _ H0 u (u, qn) Hu0); [unfold store; apply in_or_app; left; exact Hin|reflexivity].
   - intros qn qu _ _. apply (hi_cur_fresh _ H0 u). exact Hu0.
 Qed.
 
@@ -1250,7 +1400,7 @@ Qed.
 
 Lemma PK_push qn Q s : ~ In qn Q -> PK (qn :: Q) s -> PK Q (queue_push s qn u).
 Proof.
-  intros Hni P. destruct (queue_push_effect s qn u) as [->|(qu & Hq & Hc & Ec & Ei & E1 & E2 & E3 & E4 & E5)].
+  intros Hni P. destruct (queue_push_effect s qn u) as [->|(qu & Hq & Hc & Ec & Ei & E1 & E2 & E3 & E4 & E5 & _)].
   { constructor; try apply P. - intros q Hin. apply (pk_todo_add _ _ P). right; exact Hin. - intros q qu Hin. apply (pk_todo _ _ P). right; exact Hin. }
   assert (Hnu : ~ In u (held s (q_id qu))) by (apply (pk_todo _ _ P qn qu); [left; reflexivity|exact Hq]).
   constructor.
@@ -1349,7 +1499,7 @@ Lemma HI_finish_publish fx s c h u :
   fx_clear_current fx = true -> HI s -> curat c h (Some u) s -> HI (fst (finish_publish fx s c h u)).
 Proof.
   intros Hfx H (ch & Hg & Ecur). pose proof (In_cur_of_chan s c h ch u Hg Ecur) as Hu.
-  unfold finish_publish. pose proof (PK_route c h u s H Hu fx) as P.
+  unfold finish_publish. pose proof (PK_route c h u s H Hu fx) as P. pose proof (route_keeps fx s c h u) as [RK1 RK2].
   pose proof (curat_route fx c h (Some u) s c h u (ex_intro _ ch (conj Hg Ecur))) as (ch1 & Hg1 & Ecur1).
   destruct (route_and_push fx s c h u) as [s1 e1]. cbn [fst] in *. rewrite Hfx.
   unfold upd_chan. rewrite Hg1. set (s2 := set_chan s1 c h (ch1 <| ch_cur := None |>)).
@@ -1382,7 +1532,12 @@ Proof.
     + rewrite N4, (pk_db _ _ _ _ P) in Hk. apply (hi_store_lt _ H). unfold store. apply in_or_app. auto.
   - rewrite N3. apply P.
   - rewrite N4, (pk_db _ _ _ _ P). apply H.
-  - intros x k Hx Hk. apply Hcin in Hx. destruct Hx as [Hx Hne]. apply Hst in Hk. destruct Hk as [Hk|Hk]; [exact (hi_cur_add _ H x k Hx Hk)|congruence].
+  - intros x k Hx Hk. apply Hcin in Hx. destruct Hx as [Hx Hne]. unfold store in Hk. apply in_app_or in Hk. destruct Hk as [Hk|Hk].
+    + apply Hst in Hk. destruct Hk as [Hk|Hk]; [|congruence]. apply (hi_cur_add _ H x k Hx). unfold store. apply in_or_app. auto.
+    + rewrite N4, (pk_db _ _ _ _ P) in Hk. apply (hi_cur_add _ H x k Hx). unfold store. apply in_or_app. auto.
+  - intros k Hk Ha. rewrite N4, (pk_db _ _ _ _ P) in Hk. apply Hst in Ha. destruct Ha as [Ha|Ha]; [exact (hi_db_add _ H k Hk Ha)|].
+    apply (hi_cur_add _ H u k Hu); [unfold store; apply in_or_app; auto|exact Ha].
+  - rewrite (nmv_same_queues _ _ NQ), RK1. apply H.
 Qed.
 
 (* basic.publish: a fresh id becomes the channel's current message *)
@@ -1416,6 +1571,23 @@ Proof.
   - rewrite N3. auto.
   - rewrite N3. apply H.
   - rewrite N4. apply H.
+  - rewrite (nmv_same_queues _ _ NQ). apply H.
+  - rewrite N3, N4. apply H.
+Qed.
+
+Lemma names_nmv s : map fst (nmv s) = map fst (queues s).
+Proof. unfold nmv. rewrite map_map. reflexivity. Qed.
+Lemma alookup_none_notin {V} k (l : list (string * V)) : alookup seqb k l = None -> ~ In k (map fst l).
+Proof.
+  induction l as [|[k' v] t IH]; cbn; [tauto|]. destruct (seqb k k') eqn:E; [discriminate|]. intros H [->|Hin]; [|exact (IH H Hin)].
+  rewrite (proj2 (seqb_spec k k) eq_refl) in E. discriminate.
+Qed.
+Lemma names_set_queue s qn qu' : NoDup (map fst (nmv s)) -> NoDup (map fst (nmv (set_queue s qn qu'))).
+Proof.
+  rewrite !names_nmv. unfold set_queue. cbn [queues set]. intros Hn. destruct (alookup seqb qn (queues s)) as [qu|] eqn:Eq.
+  - destruct (aset_split seqb seqb_spec qn qu' qu (queues s) Eq) as (l1 & l2 & E1 & E2). rewrite E2. rewrite E1 in Hn.
+    rewrite map_app in *. exact Hn.
+  - rewrite (aset_none seqb qn qu' _ Eq), map_app. cbn [map fst]. apply NoDup_snoc; [exact Hn|]. apply alookup_none_notin. exact Eq.
 Qed.
 
 (* queue.declare of a new queue: a fresh object id, nothing waiting *)
@@ -1451,6 +1623,8 @@ Proof.
   - auto.
   - apply H.
   - apply H.
+  - apply (names_set_queue s0). apply H.
+  - apply H.
 Qed.
 
 Lemma NoDup_app' {A} (l1 l2 : list A) : NoDup l1 -> NoDup l2 -> (forall x, In x l1 -> ~ In x l2) -> NoDup (l1 ++ l2).
@@ -1458,6 +1632,39 @@ Proof.
   induction l1 as [|a t IH]; intros N1 N2 Hd; cbn; [exact N2|]. inversion N1; subst. constructor.
   - intros Hin. apply in_app_or in Hin. destruct Hin as [Hin|Hin]; [contradiction|]. apply (Hd a); [left; reflexivity|exact Hin].
   - apply IH; auto. intros x Hx. apply Hd. right. exact Hx.
+Qed.
+
+Lemma kin_spec (k : N * string) l : existsb (fun d : N * string => (fst d =? fst k) && seqb (snd d) (snd k)) l = true <-> In k l.
+Proof.
+  rewrite existsb_exists. split.
+  - intros ([a b] & Hin & E). apply andb_prop in E. destruct E as [E1 E2]. apply N.eqb_eq in E1. apply seqb_spec in E2.
+    destruct k as [a' b']. cbn [fst snd] in *. subst. exact Hin.
+  - intros Hin. exists k. split; [exact Hin|]. rewrite N.eqb_refl, (proj2 (seqb_spec _ _) eq_refl). reflexivity.
+Qed.
+Lemma kin_spec' (k : N * string) l : existsb (fun d : N * string => (fst k =? fst d) && seqb (snd k) (snd d)) l = true <-> In k l.
+Proof.
+  rewrite existsb_exists. split.
+  - intros ([a b] & Hin & E). apply andb_prop in E. destruct E as [E1 E2]. apply N.eqb_eq in E1. apply seqb_spec in E2.
+    destruct k as [a' b']. cbn [fst snd] in *. subst. exact Hin.
+  - intros Hin. exists k. split; [exact Hin|]. rewrite N.eqb_refl, (proj2 (seqb_spec _ _) eq_refl). reflexivity.
+Qed.
+
+(* what the persist tick writes is the effective store *)
+Lemma tick_db_eff cfg fx s k : In k (st_db (fst (step cfg fx s LPersistTick))) -> eff s k.
+Proof.
+  cbn [step fst].
+  match goal with |- In k (st_db (fold_left ?F ?L ?S1)) -> _ => set (s1 := S1);
+    assert (E : st_db (fold_left F L s1) = st_db s1) by (apply (nexts_FR s1); apply FR_fold; intros; apply FR_store_confirm); rewrite E end.
+  subst s1. cbn [st_db set]. intros Hk. apply filter_In in Hk. destruct Hk as [Hk Hd]. apply Bool.negb_true_iff in Hd.
+  apply in_app_or in Hk. destruct Hk as [Hk|Hk].
+  - left. split; [exact Hk|]. destruct (existsb (fun d : N * string => (fst k =? fst d) && seqb (snd k) (snd d)) (st_add s)) eqn:Ea.
+    + right. apply kin_spec'. exact Ea.
+    + left. intros Hdel. assert (Hx : existsb (fun d : N * string => (fst d =? fst k) && seqb (snd d) (snd k))
+         (filter (fun d : N * string => negb (existsb (fun k0 : N * string => (fst d =? fst k0) && seqb (snd d) (snd k0)) (st_add s))) (st_del s)) = true).
+      { apply kin_spec. apply filter_In. split; [exact Hdel|]. rewrite Ea. reflexivity. }
+      congruence.
+  - right. apply filter_In in Hk. destruct Hk as [Hk _]. apply filter_In in Hk. destruct Hk as [Hk Hn]. split; [exact Hk|].
+    apply Bool.negb_true_iff in Hn. intros Hdel. apply kin_spec in Hdel. congruence.
 Qed.
 
 (* msgstorage.persist *)
@@ -1482,7 +1689,14 @@ Proof.
     assert (Hex : existsb (fun d => (fst d =? fst k) && seqb (snd d) (snd k)) (st_db s) = true).
     { apply existsb_exists. exists k. split; [exact Hk|]. rewrite N.eqb_refl. rewrite (proj2 (seqb_spec _ _) eq_refl). reflexivity. }
     congruence.
-  - rewrite (qids_same_queues s s1) by reflexivity. apply le_ms_refl.
+  - split; [rewrite (qids_same_queues s s1) by reflexivity; apply le_ms_refl|]. constructor.
+    + intros p Hp. exact Hp.
+    + auto.
+    + intros k Hk. left. apply (tick_db_eff cfg fx s k).
+      assert (E : st_db (fst (step cfg fx s LPersistTick)) = st_db s1).
+      { cbn [step fst]. fold s1. apply (nexts_FR s1). apply FR_fold. intros; apply FR_store_confirm. }
+      rewrite E. unfold eff in Hk. change (st_add s1) with (@nil (N * string)) in Hk. destruct Hk as [[Hk _]|[[] _]]. exact Hk.
+    + intros _ k _. change (st_add s1) with (@nil (N * string)). intros [].
 Qed.
 
 (* restart: nothing is out with a consumer; each durable queue holds its stored keys *)
@@ -1543,6 +1757,8 @@ Proof.
   - change (st_add s') with (@nil (N * string)). constructor.
   - subst s'. cbn [st_db]. apply NoDup_filter. apply H.
   - rewrite Ecur. intros u k [].
+  - intros k _. change (st_add s') with (@nil (N * string)). intros [].
+  - rewrite names_nmv. subst s'. cbn [queues]. rewrite map_map. cbn [fst]. subst durq. apply NoDup_map_filter. rewrite <- names_nmv. apply H.
 Qed.
 
 (* ---- the method handlers ---- *)
@@ -1604,7 +1820,7 @@ Proof.
     eapply HI_HB; [exact H|].
     match goal with |- HB s (set_queue ?s2 q ?qu') => apply (HB_trans s s2) end.
     + match goal with |- HB s (@set _ _ _ _ _ (@set _ _ _ _ _ ?s1)) => apply (HB_trans s s1); [|apply HB_FR; apply FR_same; reflexivity] end.
-      destruct (q_durable qu); [apply HB_db_filter|apply HB_refl].
+      destruct (q_durable qu); [apply HB_store_purge|apply HB_refl].
     + apply (HB_set_queue _ q qu); [destruct (q_durable qu); exact Eqf|reflexivity|apply le_ms_nil].
   - (* MQDelete *)
     destruct (queue_found s q); [|exact H]. destruct (locked _ _); [exact H|].
@@ -1675,7 +1891,7 @@ Lemma FR_new_conn s c ch0 st :
   get_conn s c = None -> chk1 ch0 = [] ->
   FR s (s <| conns := aset N.eqb c {| cn_chans := [(0, ch0)]; cn_qos := qos0; cn_stage := st |} (conns s) |>).
 Proof.
-  intros Ec E0. unfold FR, hview. cbn [next_uid next_qid st_add st_db set]. unfold chv.
+  intros Ec E0. split; [|split; [reflexivity|apply incl_refl]]. unfold hview. cbn [next_uid next_qid st_add st_db set]. unfold chv.
   rewrite all_ch_new_conn; [|exact Ec|cbn; rewrite E0; reflexivity]. rewrite (qv_same_queues _ s) by reflexivity. reflexivity.
 Qed.
 
@@ -1854,29 +2070,54 @@ Qed.
 
 (* ------------------------------------------------------------------ *)
 (* growth: where the messages a queue object holds can come from *)
-Record GR (s s' : state) : Prop := {
+Record GR0 (s s' : state) : Prop := {
   gr_uid : next_uid s <= next_uid s';
   gr_cur : forall x, In x (all_cur s') -> In x (all_cur s) \/ next_uid s <= x;
   gr_held : forall qid x, In x (held s' qid) -> In x (held s qid) \/ In x (all_cur s) \/ next_uid s <= x }.
+(* ... and where the keys of the effective store and the queue objects can come from *)
+Record GS (s s' : state) : Prop := {
+  gs_qid : next_qid s <= next_qid s';
+  gs_q : forall p, In p (nmv s') -> In p (nmv s) \/ next_qid s <= snd p;
+  gs_eff : forall k, eff s' k -> eff s k \/ In (fst k) (all_cur s) \/ next_uid s <= fst k \/
+                     exists qid, In (fst k) (held s qid) /\ (In (snd k, qid) (nmv s) \/ next_qid s <= qid) }.
+Definition GR (s s' : state) : Prop := GR0 s s' /\ GS s s'.
+
+Lemma GS_same s s' : next_qid s <= next_qid s' -> nmv s' = nmv s -> st_add s' = st_add s -> st_db s' = st_db s -> incl (st_del s) (st_del s') -> GS s s'.
+Proof.
+  intros A B C D E. constructor; [exact A|rewrite B; auto|]. intros k Hk. left. eapply eff_mono; [| |exact E|exact Hk]; rewrite ?C, ?D; auto.
+Qed.
 
 Lemma GR_refl s : GR s s.
-Proof. constructor; auto. lia. Qed.
+Proof. split; [constructor; auto; lia|apply GS_same; auto; [lia|apply incl_refl]]. Qed.
 Lemma GR_trans s1 s2 s3 : GR s1 s2 -> GR s2 s3 -> GR s1 s3.
 Proof.
-  intros A B. pose proof (gr_uid _ _ A). pose proof (gr_uid _ _ B). constructor.
+  intros [A A'] [B B']. pose proof (gr_uid _ _ A). pose proof (gr_uid _ _ B). pose proof (gs_qid _ _ A'). pose proof (gs_qid _ _ B'). split; constructor.
   - lia.
   - intros x Hx. apply (gr_cur _ _ B) in Hx. destruct Hx as [Hx|Hx]; [apply (gr_cur _ _ A) in Hx; tauto|right; lia].
   - intros qid x Hx. apply (gr_held _ _ B) in Hx. destruct Hx as [Hx|[Hx|Hx]].
     + apply (gr_held _ _ A) in Hx. exact Hx.
     + apply (gr_cur _ _ A) in Hx. tauto.
     + right. right. lia.
+  - lia.
+  - intros p Hp. apply (gs_q _ _ B') in Hp. destruct Hp as [Hp|Hp]; [apply (gs_q _ _ A'); exact Hp|right; lia].
+  - intros k Hk. apply (gs_eff _ _ B') in Hk. destruct Hk as [Hk|[Hk|[Hk|(qid & Hk & Hq)]]].
+    + apply (gs_eff _ _ A'). exact Hk.
+    + apply (gr_cur _ _ A) in Hk. destruct Hk; [right; left; assumption|right; right; left; assumption].
+    + right. right. left. lia.
+    + apply (gr_held _ _ A) in Hk. destruct Hk as [Hk|[Hk|Hk]]; [|right; left; exact Hk|right; right; left; exact Hk].
+      right. right. right. exists qid. split; [exact Hk|]. destruct Hq as [Hq|Hq]; [|right; lia].
+      apply (gs_q _ _ A') in Hq. cbn [snd] in Hq. exact Hq.
 Qed.
 Lemma GR_HB s s' : HB s s' -> GR s s'.
 Proof.
-  intros [B _]. constructor.
+  intros (B & _ & S). split; constructor.
   - apply B.
   - intros x Hx. left. eapply le_ms_In; [apply B|exact Hx].
   - intros qid x Hx. left. eapply le_ms_In; [apply B|exact Hx].
+  - apply B.
+  - intros p Hp. left. apply (sb_q _ _ S). exact Hp.
+  - intros k Hk. apply (sb_eff _ _ S) in Hk. destruct Hk as [Hk|(qid & Hq & Hk)]; [left; exact Hk|].
+    right. right. right. exists qid. auto.
 Qed.
 Lemma GR_FR s s' : FR s s' -> GR s s'.
 Proof. intros E. apply GR_HB. apply HB_FR. exact E. Qed.
@@ -1885,13 +2126,22 @@ Lemma GR_finish_publish fx s c h u :
   HI s -> curat c h (Some u) s -> GR s (fst (finish_publish fx s c h u)).
 Proof.
   intros H (ch & Hg & Ecur). pose proof (In_cur_of_chan s c h ch u Hg Ecur) as Hu.
-  unfold finish_publish. pose proof (PK_route c h u s H Hu fx) as P.
+  unfold finish_publish. pose proof (PK_route c h u s H Hu fx) as P. pose proof (route_keeps fx s c h u) as [RK1 RK2].
   destruct (route_and_push fx s c h u) as [s1 e1]. cbn [fst] in *.
   assert (G1 : GR s s1).
-  { constructor.
+  { split; constructor.
     - rewrite (pk_uid _ _ _ _ P). lia.
     - rewrite (pk_cur _ _ _ _ P). auto.
-    - intros qid x Hx. apply (pk_held _ _ _ _ P) in Hx. destruct Hx as [Hx|[-> _]]; auto. }
+    - intros qid x Hx. apply (pk_held _ _ _ _ P) in Hx. destruct Hx as [Hx|[-> _]]; auto.
+    - rewrite (pk_qid _ _ _ _ P). lia.
+    - rewrite RK1. auto.
+    - intros k Hk. unfold eff in *. rewrite RK2, (pk_db _ _ _ _ P) in Hk.
+      assert (Ha : In k (st_add s1) -> In k (st_add s) \/ In (fst k) (all_cur s)).
+      { intros Hx. apply (pk_add _ _ _ _ P) in Hx. destruct Hx as [Hx|Hx]; [auto|right; rewrite Hx; exact Hu]. }
+      destruct Hk as [[Hd [Hc|Hc]]|[Hc Hn]].
+      + left. left. auto.
+      + apply Ha in Hc. destruct Hc as [Hc|Hc]; [left; left; auto|right; left; exact Hc].
+      + apply Ha in Hc. destruct Hc as [Hc|Hc]; [left; right; auto|right; left; exact Hc]. }
   destruct (fx_clear_current fx); [|exact G1]. eapply GR_trans; [exact G1|]. apply GR_HB.
   apply HB_upd_chan; [intros; apply le_ms_nil|intros; apply le_ms_refl].
 Qed.
@@ -1902,8 +2152,8 @@ Lemma GR_publish s c h ch ch' m :
 Proof.
   intros Hg Eu. set (s0 := s <| heap := aset N.eqb (next_uid s) m (heap s) |> <| next_uid := next_uid s + 1 |>).
   assert (Hg0 : get_chan s0 c h = Some ch) by exact Hg.
-  destruct (next_set_chan s0 c h (ch' <| ch_cur := Some (next_uid s) |>)) as (N1 & _).
-  constructor.
+  destruct (next_set_chan s0 c h (ch' <| ch_cur := Some (next_uid s) |>)) as (N1 & N2 & N3 & N4 & NQ).
+  split; [constructor|apply GS_same; [rewrite N2; cbn; lia|rewrite (nmv_same_queues _ _ NQ); reflexivity|rewrite N3; reflexivity|rewrite N4; reflexivity|rewrite st_del_set_chan; apply incl_refl]].
   - rewrite N1. cbn. lia.
   - intros x Hx. apply In_cnt in Hx. pose proof (cnt_cur_set_chan s0 c h ch (ch' <| ch_cur := Some (next_uid s) |>) Hg0 x) as Hc.
     rewrite (all_cur_same s s0) in Hc by reflexivity. change (cur_l (ch' <| ch_cur := Some (next_uid s) |>)) with [next_uid s] in Hc.
@@ -1913,9 +2163,13 @@ Proof.
     unfold uq in Hc. cbn [ch_unacked set] in Hc. rewrite Eu in Hc. rewrite (held_same s s0 qid) in Hc by reflexivity. lia.
 Qed.
 
-Lemma GR_declare s name qu' : q_ready qu' = [] -> GR s (set_queue (s <| next_qid ::= N.succ |>) name qu').
+Lemma GR_declare s name qu' : q_id qu' = next_qid s -> q_ready qu' = [] -> GR s (set_queue (s <| next_qid ::= N.succ |>) name qu').
 Proof.
-  intros Erd. set (s0 := s <| next_qid ::= N.succ |>). constructor.
+  intros Eid Erd. set (s0 := s <| next_qid ::= N.succ |>). split; [constructor|constructor].
+  4:{ cbn. lia. }
+  4:{ intros p Hp. unfold nmv, set_queue in Hp. cbn [queues set] in Hp. apply in_map_iff in Hp. destruct Hp as (kq & <- & Hk).
+      apply in_aset in Hk. destruct Hk as [->|Hk]; [right; cbn [fst snd]; rewrite Eid; lia|left; apply (in_map (fun kq : string * queue => (fst kq, q_id (snd kq)))); exact Hk]. }
+  4:{ intros k Hk. left. exact Hk. }
   - cbn. lia.
   - intros x Hx. left. exact Hx.
   - intros qid x Hx. left. unfold held in *. apply in_app_or in Hx. apply in_or_app. destruct Hx as [Hx|Hx]; [left|right; exact Hx].
@@ -1966,7 +2220,7 @@ Proof.
     apply GR_HB.
     match goal with |- HB s (set_queue ?s2 q ?qu') => apply (HB_trans s s2) end.
     + match goal with |- HB s (@set _ _ _ _ _ (@set _ _ _ _ _ ?s1)) => apply (HB_trans s s1); [|apply HB_FR; apply FR_same; reflexivity] end.
-      destruct (q_durable qu); [apply HB_db_filter|apply HB_refl].
+      destruct (q_durable qu); [apply HB_store_purge|apply HB_refl].
     + apply (HB_set_queue _ q qu); [destruct (q_durable qu); exact Eqf|reflexivity|apply le_ms_nil].
   - destruct (queue_found s q); [|apply GR_refl]. destruct (locked _ _); [apply GR_refl|].
     pose proof (HB_vhost_delete_queue (negb (fx_delete_checks_first fx)) s q ifunused ifempty) as Hd.
@@ -2120,7 +2374,7 @@ Definition gone (u qid : N) (s : state) : Prop := u < next_uid s /\ ~ In u (all_
 
 Lemma gone_GR u qid s s' : gone u qid s -> GR s s' -> gone u qid s'.
 Proof.
-  intros (A & B & C) G. pose proof (gr_uid _ _ G). split; [lia|]. split.
+  intros (A & B & C) [G _]. pose proof (gr_uid _ _ G). split; [lia|]. split.
   - intros Hx. apply (gr_cur _ _ G) in Hx. destruct Hx; [contradiction|lia].
   - intros Hx. apply (gr_held _ _ G) in Hx. destruct Hx as [Hx|[Hx|Hx]]; [contradiction|contradiction|lia].
 Qed.
@@ -2148,7 +2402,7 @@ Proof.
   intros Hfx Hn1 Hn2 s0 s1 s2 Hin Hout.
   pose proof (HI_reachable cfg fx ls0 Hfx) as H0. fold s0 in H0.
   pose proof (CI_run cfg fx ls0 (init cfg) (CI_init cfg)) as C0. fold s0 in C0.
-  pose proof (growth_run cfg fx ls1 s0 Hfx Hn1 C0 H0) as G1. fold s1 in G1.
+  pose proof (growth_run cfg fx ls1 s0 Hfx Hn1 C0 H0) as [G1 _]. fold s1 in G1.
   assert (Hg1 : gone u qid s1).
   { pose proof (gr_uid _ _ G1). pose proof (hi_held_lt _ H0 qid u Hin). split; [lia|]. split; [|exact Hout].
     intros Hx. apply (gr_cur _ _ G1) in Hx. destruct Hx as [Hx|Hx]; [exact (hi_cur_fresh _ H0 u qid Hx Hin)|lia]. }
@@ -2240,6 +2494,486 @@ Theorem settled_never_again_restart_partial cfg s qid u :
   store_in_step s -> ~ In u (held s qid) -> ~ In u (held (fst (restart cfg s)) qid).
 Proof.
   intros Hs Hout Hin. apply restart_held in Hin. destruct Hin as (qn & qu & Hkv & Hd & <- & Hk). apply Hout. eapply Hs; eauto.
+Qed.
+
+(* ---- graceful restarts: [LPersistTick; LRestart] ---- *)
+(* the key of message u is not in the effective store under the name of queue object qid *)
+Definition key_gone (u qid : N) (s : state) : Prop := forall qn, In (qn, qid) (nmv s) -> ~ eff s (u, qn).
+(* u was published, queue object qid (allocated) does not hold it, and the store will not bring it back *)
+Definition gone_for_good (u qid : N) (s : state) : Prop := gone u qid s /\ qid < next_qid s /\ key_gone u qid s.
+
+Lemma qids_nmv s : qids s = map snd (nmv s).
+Proof. rewrite qids_map. unfold nmv. rewrite map_map. reflexivity. Qed.
+Lemma nmv_name_unique s qn q1 q2 : NoDup (map fst (nmv s)) -> In (qn, q1) (nmv s) -> In (qn, q2) (nmv s) -> q1 = q2.
+Proof. intros Hn A B. pose proof (NoDup_map_inj fst _ _ _ Hn A B eq_refl) as E. inversion E. reflexivity. Qed.
+Lemma nmv_id_unique s q n1 n2 : NoDup (qids s) -> In (n1, q) (nmv s) -> In (n2, q) (nmv s) -> n1 = n2.
+Proof. rewrite qids_nmv. intros Hn A B. pose proof (NoDup_map_inj snd _ _ _ Hn A B eq_refl) as E. inversion E. reflexivity. Qed.
+
+Lemma gone_for_good_GR u qid s s' : HI s -> gone_for_good u qid s -> GR s s' -> gone_for_good u qid s'.
+Proof.
+  intros H (Hg & Hq & Hk) G. pose proof (gone_GR u qid s s' Hg G) as Hg'. destruct G as [G0 G]. pose proof (gs_qid _ _ G).
+  split; [exact Hg'|]. split; [lia|]. destruct Hg as (A & B & C).
+  intros qn Hin He. apply (gs_q _ _ G) in Hin. cbn [snd] in Hin. destruct Hin as [Hin|Hin]; [|lia].
+  apply (gs_eff _ _ G) in He. cbn [fst snd] in He. destruct He as [He|[He|[He|(q2 & Hh & Hq2)]]].
+  - exact (Hk qn Hin He).
+  - contradiction.
+  - lia.
+  - destruct Hq2 as [Hq2|Hq2]; [|pose proof (hi_held_qid _ H _ _ Hh); lia].
+    rewrite (nmv_name_unique s qn q2 qid (hi_names _ H) Hq2 Hin) in Hh. contradiction.
+Qed.
+
+Lemma st_del_store_confirm s u : st_del (store_confirm s u) = st_del s.
+Proof.
+  unfold store_confirm. destruct (get_msg s u) as [m|]; [|reflexivity]. destruct (m_conf m); [|reflexivity].
+  destruct (_ =? _)%Z; cbn [st_del set]; unfold upd_msg; destruct (get_msg s u); reflexivity.
+Qed.
+(* after the persist tick nothing is pending *)
+Lemma tick_nothing_pending cfg fx s : st_add (fst (step cfg fx s LPersistTick)) = [] /\ st_del (fst (step cfg fx s LPersistTick)) = [].
+Proof.
+  cbn [step fst].
+  match goal with |- st_add (fold_left ?F ?L ?S1) = _ /\ _ => set (s1 := S1) end.
+  split.
+  - assert (E : FR s1 (fold_left (fun s0 k => store_confirm s0 (fst k)) (filter (fun k : N * string => negb (existsb (fun d : N * string => (fst d =? fst k) && seqb (snd d) (snd k)) (st_del s))) (st_add s) ++ filter (fun k : N * string => existsb (fun d : N * string => (fst d =? fst k) && seqb (snd d) (snd k)) (st_del s)) (st_add s)) s1))
+      by (apply FR_fold; intros; apply FR_store_confirm).
+    destruct (nexts_FR _ _ E) as (_ & _ & _ & E1 & _). rewrite E1. reflexivity.
+  - apply (fold_left_preserves (fun st => st_del st = [])); [|reflexivity]. intros st k Hst. rewrite st_del_store_confirm. exact Hst.
+Qed.
+
+Lemma gone_for_good_restart cfg u qid s :
+  HI s -> st_add s = [] -> st_del s = [] -> gone_for_good u qid s -> gone_for_good u qid (fst (restart cfg s)).
+Proof.
+  intros H Ea Ed ((A & B & C) & Hq & Hk).
+  assert (Heff : forall k, In k (st_db s) -> eff s k) by (intros k Hin; left; split; [exact Hin|left; rewrite Ed; intros []]).
+  split; [split; [exact A|split]|split; [exact Hq|]].
+  - intros [].
+  - intros Hin. apply restart_held in Hin. destruct Hin as (qn & qu & Hkv & Hd & Eid & Hdb).
+    apply (Hk qn); [|apply Heff; exact Hdb]. rewrite <- Eid. apply (in_map (fun kq : string * queue => (fst kq, q_id (snd kq))) _ _ Hkv).
+  - intros qn Hin He. apply (Hk qn).
+    + unfold restart, nmv in Hin. cbn [fst queues] in Hin. rewrite map_map in Hin. cbn [fst snd q_id new_queue set] in Hin.
+      apply in_map_iff in Hin. destruct Hin as (kq & E & Hf). apply filter_In in Hf. destruct Hf as [Hf _]. rewrite <- E.
+      apply (in_map (fun kq : string * queue => (fst kq, q_id (snd kq))) _ _ Hf).
+    + apply Heff. unfold eff, restart in He. cbn [fst st_db st_add st_del] in He. destruct He as [[He _]|[[] _]]. apply filter_In in He. tauto.
+Qed.
+
+Definition is_tick (l : label) : bool := match l with LPersistTick => true | _ => false end.
+(* every restart is immediately preceded by a persist tick (a graceful stop writes out what is pending) *)
+Fixpoint graceful_from (prev : bool) (ls : list label) : bool :=
+  match ls with
+  | [] => true
+  | l :: t => (if is_restart l then prev else true) && graceful_from (is_tick l) t
+  end.
+Definition graceful (ls : list label) : bool := graceful_from false ls.
+
+Theorem gone_for_good_run cfg fx u qid ls : forall prev s,
+  fx_clear_current fx = true -> graceful_from prev ls = true -> (prev = true -> st_add s = [] /\ st_del s = []) ->
+  CI s -> HI s -> gone_for_good u qid s -> gone_for_good u qid (fst (run cfg fx s ls)).
+Proof.
+  induction ls as [|l t IH]; intros prev s Hfx Hg Hp Hci H G; cbn [run]; [exact G|].
+  cbn [graceful_from] in Hg. apply andb_prop in Hg. destruct Hg as [Hl Hg].
+  pose proof (holder_step cfg fx s l Hfx Hci H) as H1. pose proof (CI_step cfg fx s l Hci) as C1.
+  assert (G1 : gone_for_good u qid (fst (step cfg fx s l))).
+  { destruct (is_restart l) eqn:Er.
+    - destruct l; try discriminate. destruct (Hp Hl) as [Ea Ed]. cbn [step]. apply gone_for_good_restart; auto.
+    - eapply gone_for_good_GR; [exact H|exact G|]. apply growth_step; auto. }
+  assert (P1 : is_tick l = true -> st_add (fst (step cfg fx s l)) = [] /\ st_del (fst (step cfg fx s l)) = []).
+  { intros Et. destruct l; try discriminate. apply tick_nothing_pending. }
+  destruct (step cfg fx s l) as [s1 e1]. cbn [fst] in *. specialize (IH (is_tick l) s1 Hfx Hg P1 C1 H1 G1).
+  destruct (run cfg fx s1 t) as [s2 e2]. exact IH.
+Qed.
+
+(* across graceful restarts: a message that queue object qid once held, that it holds no more and whose key is out of the effective
+   store never comes back, whatever follows *)
+Theorem settled_never_again_graceful cfg fx ls0 ls2 qid u :
+  fx_clear_current fx = true -> graceful ls2 = true ->
+  let s1 := fst (run cfg fx (init cfg) ls0) in
+  gone_for_good u qid s1 -> ~ In u (held (fst (run cfg fx s1 ls2)) qid).
+Proof.
+  intros Hfx Hg s1 G.
+  assert (H1 : HI s1) by (apply HI_reachable; exact Hfx). assert (C1 : CI s1) by (apply CI_run; apply CI_init).
+  pose proof (gone_for_good_run cfg fx u qid ls2 false s1 Hfx Hg (fun E => ltac:(discriminate E)) C1 H1 G) as ((_ & _ & R) & _). exact R.
+Qed.
+
+(* how a message becomes gone for good.  It was held (so it is published and qid is allocated), it is held no more, and: *)
+Lemma gone_for_good_intro u qid s0 s1 :
+  HI s0 -> In u (held s0 qid) -> GR s0 s1 -> ~ In u (held s1 qid) -> key_gone u qid s1 -> gone_for_good u qid s1.
+Proof.
+  intros H0 Hin [G0 G] Hout Hk. pose proof (gr_uid _ _ G0). pose proof (gs_qid _ _ G). pose proof (hi_held_lt _ H0 qid u Hin). pose proof (hi_held_qid _ H0 qid u Hin).
+  split; [split; [lia|split; [|exact Hout]]|split; [lia|exact Hk]].
+  intros Hx. apply (gr_cur _ _ G0) in Hx. destruct Hx as [Hx|Hx]; [exact (hi_cur_fresh _ H0 u qid Hx Hin)|lia].
+Qed.
+
+(* ... Queue.AckMsg (acknowledge, reject without requeue, no-ack delivery) of a persistent message of a durable queue records the
+   delete of its key (no key is at once written and pending: hi_db_add) *)
+Theorem ackmsg_key_gone s qn u qu m :
+  HI s -> get_queue s qn = Some qu -> get_msg s u = Some m -> q_active qu = true -> q_durable qu && m_pers m = true ->
+  key_gone u (q_id qu) (queue_ackmsg s qn u).
+Proof.
+  intros H Hq Hm Ha Hdp. assert (Hd : ~ (In (u, qn) (st_db s) /\ In (u, qn) (st_add s))) by (intros [A B]; exact (hi_db_add _ H _ A B)). unfold queue_ackmsg. rewrite Hq, Hm, Ha, Hdp. cbn [negb]. cbv zeta.
+  intros qn' Hin He.
+  match type of Hin with In _ (nmv (set_queue ?s2 qn ?qu')) => assert (Nm : nmv (set_queue s2 qn qu') = nmv s)
+    by (rewrite (nmv_set_queue_keep s2 qn qu qu' Hq eq_refl); reflexivity) end.
+  rewrite Nm in Hin. pose proof (get_queue_nmv s qn qu Hq) as Hin0.
+  rewrite (nmv_id_unique s (q_id qu) qn' qn (hi_qids_nodup _ H) Hin Hin0) in He.
+  unfold eff in He. cbn [st_db st_add st_del set set_queue] in He.
+  assert (Hdel : In (u, qn) (st_del s ++ [(u, qn)])) by (apply in_or_app; right; left; reflexivity).
+  destruct He as [[He1 [He2|He2]]|[He1 He2]]; [exact (He2 Hdel)|exact (Hd (conj He1 He2))|exact (He2 Hdel)].
+Qed.
+
+(* ... a purge (queue.purge, queue deletion) takes every key of the queue out of the effective store *)
+Theorem purge_key_gone s qn qid u : HI s -> In (qn, qid) (nmv s) -> key_gone u qid (store_purge s qn).
+Proof.
+  intros H Hin0 qn' Hin He. change (nmv (store_purge s qn)) with (nmv s) in Hin.
+  rewrite (nmv_id_unique s qid qn' qn (hi_qids_nodup _ H) Hin Hin0) in He.
+  unfold eff, store_purge in He. cbn [st_db st_add st_del set] in He.
+  assert (Hp : In (u, qn) (st_add s) -> In (u, qn) (st_del s ++ filter (fun k : N * string => seqb (snd k) qn) (st_add s))).
+  { intros Ha. apply in_or_app. right. apply filter_In. split; [exact Ha|]. cbn [snd]. apply seqb_spec. reflexivity. }
+  destruct He as [[He1 _]|[He1 He2]]; [|exact (He2 (Hp He1))].
+  apply filter_In in He1. destruct He1 as [_ He1]. cbn [snd] in He1. rewrite (proj2 (seqb_spec qn qn) eq_refl) in He1. discriminate.
+Qed.
+
+(* the acknowledgement of one delivery (channel.ackMsg after the entry is removed), packaged *)
+Theorem ack_gone_for_good s c h e qu m :
+  HI s -> In e (U s c h) -> origin_queue s e = Some qu -> q_active qu = true -> get_msg s (u_msg e) = Some m ->
+  q_durable qu && m_pers m = true ->
+  gone_for_good (u_msg e) (u_qid e) (chan_ackmsg (upd_chan s c h (fun ch => del_unacked ch (u_tag e))) e).
+Proof.
+  intros H Hin Ho Ha Hm Hdp.
+  set (s1 := upd_chan s c h (fun ch => del_unacked ch (u_tag e))).
+  assert (Q1 : queues s1 = queues s) by apply queues_upd_chan.
+  assert (Hp1 : heap s1 = heap s) by (subst s1; unfold upd_chan; destruct (get_chan s c h); [apply heap_set_chan|reflexivity]).
+  assert (St1 : st_add s1 = st_add s /\ st_db s1 = st_db s).
+  { subst s1. unfold upd_chan. destruct (get_chan s c h); [|auto]. destruct (next_set_chan s c h (del_unacked c0 (u_tag e))) as (_ & _ & A & B & _). auto. }
+  assert (H1 : HI s1) by (eapply HI_HB; [exact H|apply HB_del_unacked]).
+  assert (Ho1 : origin_queue s1 e = Some qu) by (unfold origin_queue in *; rewrite (get_queue_same_queues _ _ _ Q1); exact Ho).
+  apply origin_queue_some in Ho. destruct Ho as [Hq Eid].
+  assert (Hq1 : get_queue s1 (u_queue e) = Some qu) by (rewrite (get_queue_same_queues _ _ _ Q1); exact Hq).
+  assert (Hm1 : get_msg s1 (u_msg e) = Some m) by (rewrite (get_msg_same_heap _ _ _ Hp1); exact Hm).
+  assert (Hin' : In (u_msg e) (held s (u_qid e))).
+  { unfold U in Hin. destruct (get_chan s c h) as [ch|] eqn:Hg; [|destruct Hin]. eapply In_uq_held; eauto. }
+  apply (gone_for_good_intro _ _ s); [exact H|exact Hin'|apply GR_HB; apply HB_ack_one|apply ack_settles; [apply H|exact Hin]|].
+  unfold chan_ackmsg. fold s1. rewrite Ho1. rewrite <- Eid. apply (ackmsg_key_gone s1 (u_queue e) (u_msg e) qu m); auto.
+Qed.
+
+(* ---- per label: the steps that settle ---- *)
+Lemma gone_for_good_FR u qid s s' : HI s -> gone_for_good u qid s -> FR s s' -> gone_for_good u qid s'.
+Proof. intros H G E. eapply gone_for_good_GR; eauto. apply GR_FR. exact E. Qed.
+
+Lemma chan_reject_drop_eq s e : chan_rejectmsg s e false = chan_ackmsg s e.
+Proof. unfold chan_rejectmsg, chan_ackmsg. destruct (origin_queue s e); reflexivity. Qed.
+
+(* end to end, any label: message u left queue object qid in this step and its key is out of the effective store afterwards -
+   along every graceful continuation the object never holds it again *)
+Theorem settled_by_step_never_again cfg fx ls0 l ls2 qid u :
+  fx_clear_current fx = true -> is_restart l = false -> graceful ls2 = true ->
+  let s := fst (run cfg fx (init cfg) ls0) in
+  let s' := fst (step cfg fx s l) in
+  In u (held s qid) -> ~ In u (held s' qid) -> key_gone u qid s' -> ~ In u (held (fst (run cfg fx s' ls2)) qid).
+Proof.
+  intros Hfx Hl Hg s s' Hin Hout Hk.
+  assert (H : HI s) by (apply HI_reachable; exact Hfx). assert (C : CI s) by (apply CI_run; apply CI_init).
+  assert (H' : HI s') by (apply holder_step; auto). assert (C' : CI s') by (apply CI_step; auto).
+  assert (G : gone_for_good u qid s') by (apply (gone_for_good_intro u qid s s'); auto; apply growth_step; auto).
+  pose proof (gone_for_good_run cfg fx u qid ls2 false s' Hfx Hg (fun E => ltac:(discriminate E)) C' H' G) as ((_ & _ & R) & _). exact R.
+Qed.
+
+(* a key with a pending delete is out of the effective store *)
+Lemma key_gone_of_del u qid qn s : HI s -> In (qn, qid) (nmv s) -> In (u, qn) (st_del s) -> key_gone u qid s.
+Proof.
+  intros H Hin0 Hd qn' Hin He. rewrite (nmv_id_unique s qid qn' qn (hi_qids_nodup _ H) Hin Hin0) in He.
+  destruct He as [[He1 [He2|He2]]|[He1 He2]]; [exact (He2 Hd)|exact (hi_db_add _ H _ He1 He2)|exact (He2 Hd)].
+Qed.
+(* a queue object that is gone has no name *)
+Lemma key_gone_dead u qid s : queue_alive s qid = false -> key_gone u qid s.
+Proof.
+  intros Hd qn Hin _. unfold nmv in Hin. apply in_map_iff in Hin. destruct Hin as (kq & E & Hk). inversion E; subst.
+  assert (Ht : queue_alive s (q_id (snd kq)) = true) by (unfold queue_alive; apply existsb_exists; exists kq; split; [exact Hk|apply N.eqb_refl]).
+  congruence.
+Qed.
+Lemma key_gone_mono u qid s s' : nmv s' = nmv s -> (forall k, eff s' k -> eff s k) -> key_gone u qid s -> key_gone u qid s'.
+Proof. intros A B Hk qn Hin He. rewrite A in Hin. exact (Hk qn Hin (B _ He)). Qed.
+
+(* basic.ack / basic.reject / basic.nack without requeue of ONE delivery of a persistent message of a durable queue *)
+Theorem ack_handler_gone_for_good cfg s c h tag e qu m :
+  HI s -> find (fun u => u_tag u =? tag) (U s c h) = Some e -> origin_queue s e = Some qu -> q_active qu = true ->
+  get_msg s (u_msg e) = Some m -> q_durable qu && m_pers m = true ->
+  gone_for_good (u_msg e) (u_qid e) (fst (handle_ack cfg s c h tag false)).
+Proof.
+  intros H Hf Ho Ha Hm Hdp. unfold handle_ack. unfold U in Hf. destruct (get_chan s c h) as [ch|] eqn:Hch; [|discriminate].
+  rewrite Hf. cbn [fst]. pose proof (find_some _ _ Hf) as [Hin Et]. apply N.eqb_eq in Et. subst tag.
+  assert (HinU : In e (U s c h)) by (unfold U; rewrite Hch; exact Hin).
+  eapply gone_for_good_FR; [|eapply ack_gone_for_good; eauto|apply FR_dec_qos].
+  eapply HI_HB; [exact H|apply HB_ack_one].
+Qed.
+Theorem reject_handler_gone_for_good cfg s c h tag cls mth e qu m :
+  HI s -> find (fun u => u_tag u =? tag) (U s c h) = Some e -> origin_queue s e = Some qu -> q_active qu = true ->
+  get_msg s (u_msg e) = Some m -> q_durable qu && m_pers m = true ->
+  gone_for_good (u_msg e) (u_qid e) (fst (handle_reject cfg s c h tag false false cls mth)).
+Proof.
+  intros H Hf Ho Ha Hm Hdp. unfold handle_reject. unfold U in Hf. destruct (get_chan s c h) as [ch|] eqn:Hch; [|discriminate].
+  rewrite Hf. cbn [fst]. pose proof (find_some _ _ Hf) as [Hin Et]. apply N.eqb_eq in Et. subst tag.
+  assert (HinU : In e (U s c h)) by (unfold U; rewrite Hch; exact Hin). rewrite chan_reject_drop_eq.
+  eapply gone_for_good_FR; [|eapply ack_gone_for_good; eauto|apply FR_dec_qos].
+  eapply HI_HB; [exact H|apply HB_ack_one].
+Qed.
+
+(* queue.purge of a durable queue: whatever it removed is out of the effective store *)
+Theorem purge_handler_key_gone cfg fx s c h q nowait qu u :
+  HI s -> get_chan s c h <> None -> queue_found s q = Some qu -> locked qu c = false -> q_durable qu = true ->
+  key_gone u (q_id qu) (fst (fst (handle_method cfg fx s c h (MQPurge q nowait)))).
+Proof.
+  intros H Hch Eqf Hl Hd. unfold handle_method. destruct (get_chan s c h) as [ch|]; [|congruence].
+  rewrite Eqf, Hl, Hd. apply queue_found_get' in Eqf. unfold ok. cbn [fst].
+  eapply key_gone_mono; [| |apply (purge_key_gone s q (q_id qu) u H (get_queue_nmv s q qu Eqf))].
+  - match goal with |- nmv (set_queue ?s2 q ?qu') = _ => rewrite (nmv_set_queue_keep s2 q qu qu' Eqf eq_refl) end. reflexivity.
+  - intros k Hk. exact Hk.
+Qed.
+
+(* queue deletion (queue.delete, auto-delete, the end of the owner's connection): the object is gone *)
+Theorem delete_key_gone b s qn iu ie n u qu :
+  HI s -> get_queue s qn = Some qu -> snd (vhost_delete_queue b s qn iu ie) = Some n ->
+  key_gone u (q_id qu) (fst (fst (vhost_delete_queue b s qn iu ie))).
+Proof.
+  intros H Hq Hr. unfold vhost_delete_queue in *. rewrite Hq in *. destruct (_ || _); [discriminate|].
+  pose proof (FR_cancel_fold (q_consumers qu) s []) as Hf.
+  destruct (fold_left _ (q_consumers qu) (s, [])) as [s1 e1]. cbn [fst snd] in *.
+  destruct Hf as (_ & Nm & _). intros qn' Hin _. unfold nmv in Hin. cbn [queues set] in Hin. rewrite adel_filter in Hin.
+  apply in_map_iff in Hin. destruct Hin as (kq & E & Hk). apply filter_In in Hk. destruct Hk as [Hk Hne].
+  assert (Hq1 : queues (if q_durable qu then store_purge s1 qn else s1) = queues s1) by (destruct (q_durable qu); reflexivity).
+  cbn [queues set] in Hk. rewrite Hq1 in Hk.
+  assert (Hin1 : In (qn', q_id qu) (nmv s)).
+  { rewrite <- Nm. rewrite <- E. apply (in_map (fun kq : string * queue => (fst kq, q_id (snd kq))) _ _ Hk). }
+  pose proof (nmv_id_unique s (q_id qu) qn' qn (hi_qids_nodup _ H) Hin1 (get_queue_nmv s qn qu Hq)) as En.
+  inversion E as [[E1 E2]]. rewrite E1, En in Hne. rewrite (proj2 (seqb_spec qn qn) eq_refl) in Hne. discriminate.
+Qed.
+
+(* no-ack deliveries: Queue.AckMsg runs inside the delivery *)
+Lemma st_del_upd_chan s c h f : st_del (upd_chan s c h f) = st_del s.
+Proof. unfold upd_chan. destruct (get_chan s c h); [apply st_del_set_chan|reflexivity]. Qed.
+Lemma st_del_upd_queue s q f : st_del (upd_queue s q f) = st_del s.
+Proof. unfold upd_queue. destruct (get_queue s q); reflexivity. Qed.
+Lemma st_del_wake s c h tag : st_del (fst (wake_consumer s c h tag)) = st_del s.
+Proof.
+  unfold wake_consumer. destruct (get_chan s c h) as [ch|]; [|reflexivity]. destruct (find_consumer ch tag) as [cm|]; [|reflexivity].
+  destruct (consume_msg cm). cbn [fst]. apply st_del_set_chan.
+Qed.
+Lemma st_del_queue_ackmsg s qn u qu m :
+  get_queue s qn = Some qu -> get_msg s u = Some m -> q_active qu = true -> q_durable qu && m_pers m = true ->
+  st_del (queue_ackmsg s qn u) = st_del s ++ [(u, qn)].
+Proof. intros A B C D. unfold queue_ackmsg. rewrite A, B, C, D. reflexivity. Qed.
+Lemma heap_upd_queue s q f : heap (upd_queue s q f) = heap s.
+Proof. unfold upd_queue. destruct (get_queue s q); reflexivity. Qed.
+
+Lemma consumer_turn_noack_del cfg fx s c h tag ch cm qu u rest m :
+  get_chan s c h = Some ch -> find_consumer ch tag = Some cm -> c_token cm = true -> c_status cm <> CStopped ->
+  get_queue s (c_queue cm) = Some qu -> q_active qu = true -> q_ready qu = u :: rest -> c_noack cm = true ->
+  get_msg s u = Some m -> q_durable qu && m_pers m = true ->
+  In (u, c_queue cm) (st_del (fst (consumer_turn cfg fx s c h tag))).
+Proof.
+  intros Hch Hfc Htok Hst Hq Ha Er Hna Hm Hdp. unfold consumer_turn. rewrite Hch, Hfc, Htok. cbn [negb].
+  set (s0 := set_chan s c h _).
+  assert (Q0 : queues s0 = queues s) by apply queues_set_chan.
+  assert (P0 : heap s0 = heap s) by apply heap_set_chan.
+  rewrite (get_queue_same_queues _ _ _ Q0), Hq, Ha, Er, Hna. cbn [negb]. clearbody s0.
+  assert (Hq1 : get_queue (upd_queue s0 (c_queue cm) (popped rest)) (c_queue cm) = Some (popped rest qu))
+    by (apply get_queue_upd_queue_at; rewrite (get_queue_same_queues _ _ _ Q0); exact Hq).
+  assert (Hm1 : get_msg (upd_queue s0 (c_queue cm) (popped rest)) u = Some m)
+    by (rewrite (get_msg_same_heap s _ u); [exact Hm|rewrite heap_upd_queue; exact P0]).
+  destruct (popped_keeps rest qu) as (_ & _ & _ & _ & Kd & Ka & _).
+  assert (Hd1 : st_del (queue_ackmsg (upd_queue s0 (c_queue cm) (popped rest)) (c_queue cm) u) = st_del s0 ++ [(u, c_queue cm)]).
+  { rewrite (st_del_queue_ackmsg _ _ _ _ m Hq1 Hm1); [rewrite st_del_upd_queue; reflexivity|rewrite Ka; exact Ha|rewrite Kd; exact Hdp]. }
+  destruct (c_status cm); try congruence.
+  all: match goal with |- context [wake_consumer ?st ?c0 ?h0 ?tag0] => pose proof (st_del_wake st c0 h0 tag0) as Hw; destruct (wake_consumer st c0 h0 tag0) as [s9 b9] end.
+  all: cbn [fst] in *; rewrite Hw; cbn [st_del set].
+  all: destruct (fx_noack_total_once fx); rewrite st_del_upd_queue; cbn [st_del set]; rewrite st_del_upd_chan, Hd1; apply in_or_app; right; left; reflexivity.
+Qed.
+
+Lemma get_noack_del cfg fx s c h q ch qu u rest m :
+  fx_noack_total_once fx = true ->
+  get_chan s c h = Some ch -> queue_found s q = Some qu -> fx_excl_owner fx && locked qu c = false -> q_ready qu = u :: rest ->
+  get_msg s u = Some m -> q_durable qu && m_pers m = true ->
+  In (u, q) (st_del (fst (fst (handle_method cfg fx s c h (MGet q true))))).
+Proof.
+  intros Hfx Hch Eqf Hl Er Hm Hdp. unfold handle_method. rewrite Hch, Eqf, Hl, Er, Hfx. unfold ok. cbn [fst].
+  assert (Ha : q_active qu = true) by (unfold queue_found in Eqf; destruct (get_queue s q) as [q0|]; [|discriminate]; destruct (q_active q0) eqn:E; inversion Eqf; subst; exact E).
+  apply queue_found_get' in Eqf.
+  set (sP := upd_queue s q (popped rest)).
+  assert (Hq1 : get_queue sP q = Some (popped rest qu)) by (apply get_queue_upd_queue_at; exact Eqf).
+  destruct (popped_keeps rest qu) as (_ & _ & _ & _ & Kd & Ka & _).
+  cbn [st_del set]. rewrite st_del_upd_queue. cbn [st_del set].
+  match goal with |- In _ (st_del (queue_ackmsg ?sB q u)) => assert (Hd : st_del (queue_ackmsg sB q u) = st_del sB ++ [(u, q)]) end.
+  { apply (st_del_queue_ackmsg _ _ _ (popped rest qu) m).
+    - rewrite (get_queue_same_queues sP _ q); [exact Hq1|apply queues_upd_chan].
+    - rewrite (get_msg_same_heap s _ u); [exact Hm|]. unfold upd_chan. destruct (get_chan sP c h); [rewrite heap_set_chan|]; apply heap_upd_queue.
+    - rewrite Ka. exact Ha.
+    - rewrite Kd. exact Hdp. }
+  rewrite Hd. apply in_or_app. right. left. reflexivity.
+Qed.
+
+(* a frame on an open channel of an open connection that the handler accepts: the step is the handler *)
+Lemma ensure_chan_id s c h ch : get_chan s c h = Some ch -> ensure_chan s c h = s.
+Proof.
+  unfold get_chan, ensure_chan. destruct (get_conn s c) as [cn|]; [|discriminate]. intros E. rewrite E. reflexivity.
+Qed.
+Lemma apply_err_st_none cfg fx o s c h r : snd r = None -> apply_err_st cfg fx o s c h r = fst r.
+Proof. destruct r as [[s1 e1] e]. cbn [snd]. intros ->. unfold apply_err_st, apply_err. cbn. destruct o; reflexivity. Qed.
+Lemma step_is_handler cfg fx s c h m cn ch :
+  get_conn s c = Some cn -> cn_stage cn = StOpen -> get_chan s c h = Some ch -> ch_status ch = ChOpen -> h <> 0 ->
+  is_conn_class m = false -> snd (handle_method cfg fx s c h m) = None ->
+  step cfg fx s (LMethod c h m) = fst (handle_method cfg fx s c h m).
+Proof.
+  intros Hc Hs Hch Hst Hh Hm He. cbn [step]. rewrite Hc, Hs. cbn [cstage_eqb negb andb]. rewrite (ensure_chan_id s c h ch Hch).
+  assert (Eh : (h =? 0) = false) by (apply N.eqb_neq; exact Hh).
+  assert (Eu : chan_usable s c h = true) by (unfold chan_usable; rewrite Hch, Hst; reflexivity).
+  rewrite Hch, Hst, Hm, Eh, Eu. cbn [Bool.eqb negb andb].
+  destruct m; try discriminate; cbn [is_chan_close stage_allows negb andb];
+    rewrite ?andb_false_r; cbn [andb negb]; apply apply_err_st_none; exact He.
+Qed.
+
+Lemma run_from_gone cfg fx ls0 l ls2 u qid :
+  fx_clear_current fx = true -> graceful ls2 = true ->
+  let s := fst (run cfg fx (init cfg) ls0) in
+  let s' := fst (step cfg fx s l) in
+  gone_for_good u qid s' -> ~ In u (held (fst (run cfg fx s' ls2)) qid).
+Proof.
+  intros Hfx Hg s s' G.
+  assert (H : HI s) by (apply HI_reachable; exact Hfx). assert (C : CI s) by (apply CI_run; apply CI_init).
+  assert (H' : HI s') by (apply holder_step; auto). assert (C' : CI s') by (apply CI_step; auto).
+  pose proof (gone_for_good_run cfg fx u qid ls2 false s' Hfx Hg (fun E => ltac:(discriminate E)) C' H' G) as ((_ & _ & R) & _). exact R.
+Qed.
+
+(* END TO END, per label (persistent message, durable queue).  The frame arrives on an open channel (h <> 0) of an open connection.
+   basic.ack of one delivery: *)
+Theorem ack_never_again_graceful cfg fx ls0 ls2 c h tag cn ch e qu m :
+  fx_clear_current fx = true -> graceful ls2 = true ->
+  let s := fst (run cfg fx (init cfg) ls0) in
+  get_conn s c = Some cn -> cn_stage cn = StOpen -> get_chan s c h = Some ch -> ch_status ch = ChOpen -> h <> 0 ->
+  find (fun u => u_tag u =? tag) (ch_unacked ch) = Some e -> origin_queue s e = Some qu -> q_active qu = true ->
+  get_msg s (u_msg e) = Some m -> q_durable qu && m_pers m = true ->
+  ~ In (u_msg e) (held (fst (run cfg fx (fst (step cfg fx s (LMethod c h (MAck tag false)))) ls2)) (u_qid e)).
+Proof.
+  intros Hfx Hg s Hc Hs Hch Hst Hh Hf Ho Ha Hm Hdp.
+  assert (HI0 : HI s) by (apply HI_reachable; exact Hfx).
+  assert (Hf' : find (fun u => u_tag u =? tag) (U s c h) = Some e) by (unfold U; rewrite Hch; exact Hf).
+  assert (He : snd (handle_method cfg fx s c h (MAck tag false)) = None).
+  { unfold handle_method. rewrite Hch. unfold handle_ack. rewrite Hch, Hf. reflexivity. }
+  apply run_from_gone; auto. fold s. rewrite (step_is_handler cfg fx s c h (MAck tag false) cn ch Hc Hs Hch Hst Hh eq_refl He).
+  assert (Es : fst (fst (handle_method cfg fx s c h (MAck tag false))) = fst (handle_ack cfg s c h tag false)).
+  { unfold handle_method. rewrite Hch. destruct (handle_ack cfg s c h tag false). reflexivity. }
+  rewrite Es. eapply ack_handler_gone_for_good; eauto.
+Qed.
+
+(* basic.reject / basic.nack of one delivery without requeue *)
+Theorem reject_never_again_graceful cfg fx ls0 ls2 c h tag cn ch e qu m :
+  fx_clear_current fx = true -> graceful ls2 = true ->
+  let s := fst (run cfg fx (init cfg) ls0) in
+  get_conn s c = Some cn -> cn_stage cn = StOpen -> get_chan s c h = Some ch -> ch_status ch = ChOpen -> h <> 0 ->
+  find (fun u => u_tag u =? tag) (ch_unacked ch) = Some e -> origin_queue s e = Some qu -> q_active qu = true ->
+  get_msg s (u_msg e) = Some m -> q_durable qu && m_pers m = true ->
+  ~ In (u_msg e) (held (fst (run cfg fx (fst (step cfg fx s (LMethod c h (MReject tag false)))) ls2)) (u_qid e)) /\
+  ~ In (u_msg e) (held (fst (run cfg fx (fst (step cfg fx s (LMethod c h (MNack tag false false)))) ls2)) (u_qid e)).
+Proof.
+  intros Hfx Hg s Hc Hs Hch Hst Hh Hf Ho Ha Hm Hdp.
+  assert (HI0 : HI s) by (apply HI_reachable; exact Hfx).
+  assert (Hf' : find (fun u => u_tag u =? tag) (U s c h) = Some e) by (unfold U; rewrite Hch; exact Hf).
+  split.
+  - assert (He : snd (handle_method cfg fx s c h (MReject tag false)) = None).
+    { unfold handle_method. rewrite Hch. unfold handle_reject. rewrite Hch, Hf. reflexivity. }
+    apply run_from_gone; auto. fold s. rewrite (step_is_handler cfg fx s c h (MReject tag false) cn ch Hc Hs Hch Hst Hh eq_refl He).
+    assert (Es : fst (fst (handle_method cfg fx s c h (MReject tag false))) = fst (handle_reject cfg s c h tag false false 60 90)).
+    { unfold handle_method. rewrite Hch. destruct (handle_reject cfg s c h tag false false 60 90). reflexivity. }
+    rewrite Es. eapply reject_handler_gone_for_good; eauto.
+  - assert (He : snd (handle_method cfg fx s c h (MNack tag false false)) = None).
+    { unfold handle_method. rewrite Hch. unfold handle_reject. rewrite Hch, Hf. reflexivity. }
+    apply run_from_gone; auto. fold s. rewrite (step_is_handler cfg fx s c h (MNack tag false false) cn ch Hc Hs Hch Hst Hh eq_refl He).
+    assert (Es : fst (fst (handle_method cfg fx s c h (MNack tag false false))) = fst (handle_reject cfg s c h tag false false 60 120)).
+    { unfold handle_method. rewrite Hch. destruct (handle_reject cfg s c h tag false false 60 120). reflexivity. }
+    rewrite Es. eapply reject_handler_gone_for_good; eauto.
+Qed.
+
+(* queue.purge of a durable queue: what it removed *)
+Theorem purge_never_again_graceful cfg fx ls0 ls2 c h q nowait cn ch qu u :
+  fx_clear_current fx = true -> graceful ls2 = true ->
+  let s := fst (run cfg fx (init cfg) ls0) in
+  let s' := fst (step cfg fx s (LMethod c h (MQPurge q nowait))) in
+  get_conn s c = Some cn -> cn_stage cn = StOpen -> get_chan s c h = Some ch -> ch_status ch = ChOpen -> h <> 0 ->
+  queue_found s q = Some qu -> locked qu c = false -> q_durable qu = true ->
+  In u (held s (q_id qu)) -> ~ In u (held s' (q_id qu)) ->
+  ~ In u (held (fst (run cfg fx s' ls2)) (q_id qu)).
+Proof.
+  intros Hfx Hg s s' Hc Hs Hch Hst Hh Eqf Hl Hd Hin Hout.
+  assert (HI0 : HI s) by (apply HI_reachable; exact Hfx).
+  apply settled_by_step_never_again; auto. fold s. fold s'.
+  assert (He : snd (handle_method cfg fx s c h (MQPurge q nowait)) = None).
+  { unfold handle_method. rewrite Hch, Eqf, Hl. reflexivity. }
+  unfold s'. rewrite (step_is_handler cfg fx s c h (MQPurge q nowait) cn ch Hc Hs Hch Hst Hh eq_refl He).
+  apply purge_handler_key_gone; auto. congruence.
+Qed.
+
+(* queue.delete: the waiting messages of the deleted object *)
+Theorem delete_never_again_graceful cfg fx ls0 ls2 c h q iu ie nowait cn ch qu n u :
+  fx_clear_current fx = true -> graceful ls2 = true ->
+  let s := fst (run cfg fx (init cfg) ls0) in
+  let s' := fst (step cfg fx s (LMethod c h (MQDelete q iu ie nowait))) in
+  get_conn s c = Some cn -> cn_stage cn = StOpen -> get_chan s c h = Some ch -> ch_status ch = ChOpen -> h <> 0 ->
+  queue_found s q = Some qu -> locked qu c = false ->
+  snd (vhost_delete_queue (negb (fx_delete_checks_first fx)) s q iu ie) = Some n ->
+  In u (held s (q_id qu)) -> ~ In u (held s' (q_id qu)) ->
+  ~ In u (held (fst (run cfg fx s' ls2)) (q_id qu)).
+Proof.
+  intros Hfx Hg s s' Hc Hs Hch Hst Hh Eqf Hl Hr Hin Hout.
+  assert (HI0 : HI s) by (apply HI_reachable; exact Hfx).
+  apply settled_by_step_never_again; auto. fold s. fold s'.
+  pose proof (delete_key_gone (negb (fx_delete_checks_first fx)) s q iu ie n u qu HI0 (queue_found_get' _ _ _ Eqf) Hr) as Hk.
+  assert (He : snd (handle_method cfg fx s c h (MQDelete q iu ie nowait)) = None /\
+               fst (fst (handle_method cfg fx s c h (MQDelete q iu ie nowait))) = fst (fst (vhost_delete_queue (negb (fx_delete_checks_first fx)) s q iu ie))).
+  { unfold handle_method. rewrite Hch, Eqf, Hl. destruct (vhost_delete_queue _ s q iu ie) as [[s1 e1] r1]. cbn [snd] in Hr. rewrite Hr. split; reflexivity. }
+  destruct He as [He Es]. unfold s'. rewrite (step_is_handler cfg fx s c h (MQDelete q iu ie nowait) cn ch Hc Hs Hch Hst Hh eq_refl He). rewrite Es. exact Hk.
+Qed.
+
+(* a consumer turn in no-ack mode *)
+Theorem noack_turn_never_again_graceful cfg fx ls0 ls2 c h tag ch cm qu u rest m :
+  fx_clear_current fx = true -> graceful ls2 = true ->
+  let s := fst (run cfg fx (init cfg) ls0) in
+  let s' := fst (step cfg fx s (LConsumerTurn c h tag)) in
+  get_chan s c h = Some ch -> find_consumer ch tag = Some cm -> c_token cm = true -> c_status cm <> CStopped ->
+  get_queue s (c_queue cm) = Some qu -> q_active qu = true -> q_ready qu = u :: rest -> c_noack cm = true ->
+  get_msg s u = Some m -> q_durable qu && m_pers m = true ->
+  In u (held s (q_id qu)) -> ~ In u (held s' (q_id qu)) ->
+  ~ In u (held (fst (run cfg fx s' ls2)) (q_id qu)).
+Proof.
+  intros Hfx Hg s s' Hch Hfc Htok Hst Hq Ha Er Hna Hm Hdp Hin Hout.
+  assert (HI0 : HI s) by (apply HI_reachable; exact Hfx). assert (C0 : CI s) by (apply CI_run; apply CI_init).
+  assert (HI1 : HI s') by (apply holder_step; auto).
+  apply settled_by_step_never_again; auto. fold s. fold s'.
+  pose proof (consumer_turn_noack_del cfg fx s c h tag ch cm qu u rest m Hch Hfc Htok Hst Hq Ha Er Hna Hm Hdp) as Hdel.
+  assert (Nm : nmv s' = nmv s).
+  { unfold s'. cbn [step]. destruct (consumer_turn_effect cfg fx s c h tag) as [[E _]|(? & ? & ? & ? & ? & ? & _ & _ & _ & _ & D & _)]; [apply E|apply D]. }
+  apply (key_gone_of_del u (q_id qu) (c_queue cm) s' HI1); [rewrite Nm; apply get_queue_nmv; exact Hq|exact Hdel].
+Qed.
+
+(* basic.get in no-ack mode *)
+Theorem noack_get_never_again_graceful cfg fx ls0 ls2 c h q cn ch qu u rest m :
+  fx_clear_current fx = true -> fx_noack_total_once fx = true -> graceful ls2 = true ->
+  let s := fst (run cfg fx (init cfg) ls0) in
+  let s' := fst (step cfg fx s (LMethod c h (MGet q true))) in
+  get_conn s c = Some cn -> cn_stage cn = StOpen -> get_chan s c h = Some ch -> ch_status ch = ChOpen -> h <> 0 ->
+  queue_found s q = Some qu -> fx_excl_owner fx && locked qu c = false -> q_ready qu = u :: rest ->
+  get_msg s u = Some m -> q_durable qu && m_pers m = true ->
+  In u (held s (q_id qu)) -> ~ In u (held s' (q_id qu)) ->
+  ~ In u (held (fst (run cfg fx s' ls2)) (q_id qu)).
+Proof.
+  intros Hfx Hn Hg s s' Hc Hs Hch Hst Hh Eqf Hl Er Hm Hdp Hin Hout.
+  assert (HI0 : HI s) by (apply HI_reachable; exact Hfx). assert (C0 : CI s) by (apply CI_run; apply CI_init).
+  assert (HI1 : HI s') by (apply holder_step; auto).
+  apply settled_by_step_never_again; auto. fold s. fold s'.
+  assert (He : snd (handle_method cfg fx s c h (MGet q true)) = None).
+  { unfold handle_method. rewrite Hch, Eqf, Hl, Er. reflexivity. }
+  assert (Es : s' = fst (fst (handle_method cfg fx s c h (MGet q true)))).
+  { unfold s'. rewrite (step_is_handler cfg fx s c h (MGet q true) cn ch Hc Hs Hch Hst Hh eq_refl He). reflexivity. }
+  pose proof (get_noack_del cfg fx s c h q ch qu u rest m Hn Hch Eqf Hl Er Hm Hdp) as Hdel. rewrite <- Es in Hdel.
+  assert (Nm : nmv s' = nmv s).
+  { rewrite Es. destruct (get_effect cfg fx s c h q true) as [[E _]|(? & ? & ? & ? & _ & _ & _ & D & _)]; [apply E|apply D]. }
+  apply (key_gone_of_del u (q_id qu) q s' HI1); [rewrite Nm; apply get_queue_nmv; apply queue_found_get'; exact Eqf|exact Hdel].
 Qed.
 
 (* ---- only consumer turns and basic.get send deliveries ---- *)
@@ -2438,35 +3172,90 @@ Example clear_current_needed :
                 LMethod 1 1 (MPublish "" "a" false false); LHeader 1 1 9 2 false; LBody 1 1 2; LBody 1 1 0])) 1 = [1; 1].
 Proof. vm_compute. reflexivity. Qed.
 
-(* a restart taken while a delete is still pending in the store brings an acknowledged message back: [store_in_step] is a real
-   hypothesis of [settled_never_again_restart_partial] *)
-Example restart_resurrects_acked :
+(* KILL ONLY (LRestart with operations pending in the store; a graceful stop is [LPersistTick; LRestart]): a delete that is
+   still pending is lost, the acknowledged message comes back.  After the graceful sequence it does not. *)
+Example kill_resurrects_acked :
   let s := fst (run ex_cfg all_fixed (init ex_cfg)
                [LConnect 1; LMethod 1 1 MChannelOpen; LMethod 1 1 (MQDeclare "a" true false false false false);
                 LMethod 1 1 (MPublish "" "a" false false); LHeader 1 1 9 2 true; LBody 1 1 2; LPersistTick;
                 LMethod 1 1 (MGet "a" false); LMethod 1 1 (MAck 1 false)]) in
-  held s 1 = [] /\ st_del s = [(1, "a"%string)] /\ held (fst (step ex_cfg all_fixed s LRestart)) 1 = [1].
+  held s 1 = [] /\ st_del s = [(1, "a"%string)] /\ held (fst (step ex_cfg all_fixed s LRestart)) 1 = [1] /\
+  held (fst (run ex_cfg all_fixed s [LPersistTick; LRestart])) 1 = [].
 Proof. vm_compute. repeat split; reflexivity. Qed.
 
-(* the pending add of a deleted queue is written under its name later: after a restart the queue declared anew under that name
-   (a different object, id 2) holds a message it never received *)
-Example restart_ghost_in_redeclared_queue :
+(* no longer reachable (store_purge cancels what is pending): a purge, or a delete + declare under the same name, that overtakes
+   the pending add of a message - neither a graceful restart nor a kill brings the message back *)
+Example purge_cancels_pending_add :
+  let s := fst (run ex_cfg all_fixed (init ex_cfg)
+               [LConnect 1; LMethod 1 1 MChannelOpen; LMethod 1 1 (MQDeclare "a" true false false false false);
+                LMethod 1 1 (MPublish "" "a" false false); LHeader 1 1 9 2 true; LBody 1 1 2; LMethod 1 1 (MQPurge "a" false)]) in
+  held s 1 = [] /\ held (fst (run ex_cfg all_fixed s [LPersistTick; LRestart])) 1 = [] /\ held (fst (step ex_cfg all_fixed s LRestart)) 1 = [].
+Proof. vm_compute. repeat split; reflexivity. Qed.
+Example delete_cancels_pending_add :
   let s := fst (run ex_cfg all_fixed (init ex_cfg)
                [LConnect 1; LMethod 1 1 MChannelOpen; LMethod 1 1 (MQDeclare "a" true false false false false);
                 LMethod 1 1 (MPublish "" "a" false false); LHeader 1 1 9 2 true; LBody 1 1 2;
                 LMethod 1 1 (MQDelete "a" false false false); LMethod 1 1 (MQDeclare "a" true false false false false)]) in
-  held s 2 = [] /\ held (fst (run ex_cfg all_fixed s [LPersistTick; LRestart])) 2 = [1].
+  held s 2 = [] /\ held (fst (run ex_cfg all_fixed s [LPersistTick; LRestart])) 2 = [] /\ held (fst (step ex_cfg all_fixed s LRestart)) 2 = [].
 Proof. vm_compute. repeat split; reflexivity. Qed.
 
-(* a purge that overtakes the pending add of a message: the add is flushed afterwards and a (graceful, nothing pending) restart
-   brings the purged message back *)
-Example restart_resurrects_purged :
+(* no longer reachable (store_writeback leaves a pending add alone; st_db and st_add share no key: hi_db_add): a requeue while the
+   add of the message is still pending, then redelivery and ack - the tick cancels the add, nothing comes back *)
+Example pending_requeue_then_ack_stays_away :
   let s := fst (run ex_cfg all_fixed (init ex_cfg)
                [LConnect 1; LMethod 1 1 MChannelOpen; LMethod 1 1 (MQDeclare "a" true false false false false);
                 LMethod 1 1 (MPublish "" "a" false false); LHeader 1 1 9 2 true; LBody 1 1 2;
-                LMethod 1 1 (MQPurge "a" false); LPersistTick]) in
-  held s 1 = [] /\ st_add s = [] /\ st_del s = [] /\ held (fst (step ex_cfg all_fixed s LRestart)) 1 = [1].
+                LMethod 1 1 (MGet "a" false); LMethod 1 1 (MReject 1 true); LMethod 1 1 (MGet "a" false); LMethod 1 1 (MAck 2 false)]) in
+  held s 1 = [] /\ st_add s = [(1, "a"%string)] /\ st_db s = [] /\ st_del s = [(1, "a"%string)] /\
+  held (fst (run ex_cfg all_fixed s [LPersistTick; LRestart])) 1 = [].
 Proof. vm_compute. repeat split; reflexivity. Qed.
+
+(* F41-unsettled: a purge deletes the keys of deliveries that are unsettled; nothing comes BACK because of it, but a message that
+   is still held is lost by a graceful restart *)
+Example purge_loses_unsettled :
+  let s := fst (run ex_cfg all_fixed (init ex_cfg)
+               [LConnect 1; LMethod 1 1 MChannelOpen; LMethod 1 1 (MQDeclare "a" true false false false false);
+                LMethod 1 1 (MPublish "" "a" false false); LHeader 1 1 9 2 true; LBody 1 1 2; LPersistTick;
+                LMethod 1 1 (MGet "a" false); LMethod 1 1 (MQPurge "a" false)]) in
+  held s 1 = [1] /\ held (fst (run ex_cfg all_fixed s [LPersistTick; LRestart])) 1 = [].
+Proof. vm_compute. repeat split; reflexivity. Qed.
+
+(* non-vacuity of the graceful-restart theorem: an acknowledged and a purged persistent message stay away over two graceful
+   restarts with traffic in between *)
+Example graceful_restart_keeps_settled_away :
+  let s := fst (run ex_cfg all_fixed (init ex_cfg)
+               [LConnect 1; LMethod 1 1 MChannelOpen; LMethod 1 1 (MQDeclare "a" true false false false false);
+                LMethod 1 1 (MPublish "" "a" false false); LHeader 1 1 9 2 true; LBody 1 1 2;
+                LMethod 1 1 (MPublish "" "a" false false); LHeader 1 1 9 2 true; LBody 1 1 2;
+                LMethod 1 1 (MGet "a" false); LMethod 1 1 (MAck 1 false); LMethod 1 1 (MQPurge "a" false)]) in
+  let ls2 := [LPersistTick; LRestart; LConnect 2; LMethod 2 1 MChannelOpen; LMethod 2 1 (MGet "a" false); LPersistTick; LRestart] in
+  held s 1 = [] /\ graceful ls2 = true /\ held (fst (run ex_cfg all_fixed s ls2)) 1 = [].
+Proof. vm_compute. repeat split; reflexivity. Qed.
+
+(* the end-to-end theorem applies: its hypotheses hold in a concrete reachable state (flushed persistent message, delivered, acked) *)
+Example ack_never_again_instance :
+  let ls0 := [LConnect 1; LMethod 1 1 MChannelOpen; LMethod 1 1 (MQDeclare "a" true false false false false);
+              LMethod 1 1 (MPublish "" "a" false false); LHeader 1 1 9 2 true; LBody 1 1 2; LPersistTick; LMethod 1 1 (MGet "a" false)] in
+  let s := fst (run ex_cfg all_fixed (init ex_cfg) ls0) in
+  forall ls2, graceful ls2 = true ->
+  ~ In 1 (held (fst (run ex_cfg all_fixed (fst (step ex_cfg all_fixed s (LMethod 1 1 (MAck 1 false)))) ls2)) 1).
+Proof.
+  intros ls0 s ls2 Hg.
+  assert (Hc : exists cn, get_conn s 1 = Some cn /\ cn_stage cn = StOpen) by (vm_compute; eexists; split; reflexivity).
+  destruct Hc as (cn & Hc & Hs).
+  assert (Hch : exists ch, get_chan s 1 1 = Some ch /\ ch_status ch = ChOpen /\
+                 find (fun u => u_tag u =? 1) (ch_unacked ch) = Some {| u_tag := 1; u_ctag := ""; u_queue := "a"; u_qid := 1; u_msg := 1 |})
+    by (vm_compute; eexists; repeat split; reflexivity).
+  destruct Hch as (ch & Hch & Hst & Hf).
+  assert (Ho : exists qu, origin_queue s {| u_tag := 1; u_ctag := ""; u_queue := "a"; u_qid := 1; u_msg := 1 |} = Some qu /\ q_active qu = true /\ q_durable qu = true)
+    by (vm_compute; eexists; repeat split; reflexivity).
+  destruct Ho as (qu & Ho & Ha & Hd).
+  assert (Hm : exists m, get_msg s 1 = Some m /\ m_pers m = true) by (vm_compute; eexists; split; reflexivity).
+  destruct Hm as (m & Hm & Hp).
+  refine (ack_never_again_graceful ex_cfg all_fixed ls0 ls2 1 1 1 cn ch _ qu m eq_refl Hg Hc Hs Hch Hst _ Hf Ho Ha Hm _).
+  - discriminate.
+  - rewrite Hd, Hp. reflexivity.
+Qed.
 
 (* ---- corollaries ---- *)
 (* an unsettled delivery names a queue object that was allocated *)
@@ -2485,7 +3274,7 @@ Theorem back_only_by_return cfg fx s l qid x :
   In x (ready_of (fst (step cfg fx s l)) qid) -> ~ In x (ready_of s qid) ->
   In x (unacked_of s qid) \/ In x (all_cur s) \/ next_uid s <= x.
 Proof.
-  intros Hl Hci H Hin Hout. pose proof (growth_step cfg fx s l Hl Hci H) as G.
+  intros Hl Hci H Hin Hout. pose proof (growth_step cfg fx s l Hl Hci H) as [G _].
   assert (Hh : In x (held (fst (step cfg fx s l)) qid)) by (unfold held; apply in_or_app; auto).
   apply (gr_held _ _ G) in Hh. destruct Hh as [Hh|Hh]; [|auto]. unfold held in Hh. apply in_app_or in Hh. destruct Hh; [contradiction|auto].
 Qed.
